@@ -2,15 +2,16 @@
 from __future__ import annotations
 
 import ast
+import copy as _copy
+import itertools
 import re
 from typing import Dict, List, Optional
 
 from engine import AnalysisError
-from engine.srcmodel import walk_shallow, norm, parent, ancestors
-from engine.util import call_name, contains, fstring_template
+from engine.srcmodel import walk_shallow, norm, parent, ancestors, set_parents, FunctionInfo
+from engine.util import call_name, contains, _reads, _rebinds
 from engine.cfg import stmt_of
 from engine.dataflow import assigned_value, target_names
-from .c06 import same_value, resolve_local, binding_loop, comp_generator_of, position_in_target, block_of, ordered
 
 PROPERTY = "C17"
 UT = "pyrates/utility.py"
@@ -44,25 +45,883 @@ ASSUMPTIONS = [
 ]
 
 
-def _func(ctx, name):
-    return ctx.repo.get_func(UT, name)
+# ============================================================================================
+# Normalisation layer.  The rules below never look at the functions as written; they look at a *synthetic* copy in which
+#   * calls of private helpers (same module, name starts with `_`, or a single call site in the package) are inlined: parameters
+#     that the helper never re-binds are substituted by plain-name / constant arguments, the other parameters become
+#     `<param> = <argument>` statements, the helper's locals get fresh names, and `return X` in tail position becomes the assignment
+#     (or expression) the call stood for - so an extracted loop looks exactly like the loop written in place;
+#   * `a, b = x, y` is split into `a = x; b = y` when the right-hand side does not read a target;
+#   * (adapt_circuit only) a loop-invariant boolean flag that is tested at several places is case-split: one copy of the function per
+#     truth value, with the tests folded - so two loops that were merged under a flag look like the two loops again.
+# On top of it `expand` (substitute single-definition locals), `elem_of` (which element of which container does a name denote:
+# for-targets, comprehension targets, enumerate / items / index loops, tuple unpacking of the loop variable) and `terminal_defs`
+# (definitions behind plain aliases) let the rules identify values by role rather than by spelling.
+# ============================================================================================
+
+_FUNCS = (ast.FunctionDef, ast.AsyncFunctionDef)
+COMPS = (ast.ListComp, ast.SetComp, ast.DictComp, ast.GeneratorExp)
+# functions the rules anchor on: never inlined
+ANCHORS = frozenset({"grid_search", "adapt_circuit", "linearize_grid", "update_var", "update_template", "get_edge", "run", "from_yaml",
+                     "get_nodes", "get_node_template", "add_node_template", "apply"})
 
 
-def _calls(f, name):
-    return ordered([c for c in walk_shallow(f.node) if isinstance(c, ast.Call) and call_name(c) == name])
+class SynFunc(FunctionInfo):
+    """A normalised copy of a function.  Hashes differently from the original (own CFG / reaching definitions in ctx) but reports
+    under the original's qualified name."""
+
+    def __init__(self, orig: FunctionInfo, node, tag: str):
+        FunctionInfo.__init__(self, name=orig.name, qualname=f"{orig.qualname}⟨{tag}⟩", module=orig.module, node=node, cls=orig.cls,
+                              parent=orig.parent)
+        self.orig = orig
+
+    @property
+    def qual(self):
+        return self.orig.qual
 
 
-def _unmodified_param(ctx, f, e, pname: Optional[str] = None) -> bool:
+def _cp(n, ren=None, sub=None):
+    """Structural copy (no parent pointers); `ren` renames names, `sub` replaces loads of a name by an expression."""
+    if isinstance(n, list):
+        return [_cp(x, ren, sub) for x in n]
+    if not isinstance(n, ast.AST):
+        return n
+    if sub and isinstance(n, ast.Name) and isinstance(n.ctx, ast.Load) and n.id in sub:
+        return _cp(sub[n.id])
+    new = _copy.copy(n)
+    new.__dict__.pop("_parent", None)
+    new._orig = getattr(n, "_orig", n)
+    for field, val in ast.iter_fields(n):
+        if isinstance(val, (list, ast.AST)):
+            setattr(new, field, _cp(val, ren, sub))
+    if ren:
+        if isinstance(new, ast.Name) and new.id in ren:
+            new.id = ren[new.id]
+        elif isinstance(new, ast.ExceptHandler) and new.name in ren:
+            new.name = ren[new.name]
+    return new
+
+
+def _at(new, ref):
+    ast.copy_location(new, ref)
+    ast.fix_missing_locations(new)
+    return new
+
+
+def _number(node):
+    i = 0
+    stack = [node]
+    while stack:
+        n = stack.pop()
+        n._ord = i
+        i += 1
+        stack.extend(reversed(list(ast.iter_child_nodes(n))))
+
+
+def ordered(nodes):
+    return sorted(nodes, key=lambda n: (getattr(n, "_ord", 0), getattr(n, "lineno", 0), getattr(n, "col_offset", 0)))
+
+
+def _has_ret(x) -> bool:
+    xs = x if isinstance(x, list) else [x]
+    return any(isinstance(n, ast.Return) for s in xs for n in ast.walk(s))
+
+
+def _terminates(stmts) -> bool:
+    if not stmts:
+        return False
+    last = stmts[-1]
+    if isinstance(last, (ast.Return, ast.Raise)):
+        return True
+    if isinstance(last, ast.If):
+        return _terminates(last.body) and _terminates(last.orelse)
+    return False
+
+
+def _tail(stmts, emit):
+    """Rewrite a helper body so that every `return X` (all must be in tail position) becomes emit(X); None if that is impossible."""
+    out = []
+    for i, st in enumerate(stmts):
+        rest = stmts[i + 1:]
+        if isinstance(st, ast.Return):
+            return out + emit(st.value, st)
+        if isinstance(st, ast.Raise):
+            return out + [st]
+        if not _has_ret(st):
+            out.append(st)
+            continue
+        if not isinstance(st, ast.If):
+            return None
+        bt, et = _terminates(st.body), _terminates(st.orelse)
+        body = st.body if bt else st.body + rest
+        orelse = st.orelse if et else st.orelse + (_cp(rest) if not bt else rest)
+        nb, ne = _tail(body, emit), _tail(orelse, emit)
+        if nb is None or ne is None:
+            return None
+        st.body = nb or [_at(ast.Pass(), st)]
+        st.orelse = ne
+        return out + [st]
+    return out + emit(None, None)
+
+
+def _safe_calls(e):
+    """Calls inside `e` that are evaluated exactly once whenever `e` is (innermost first)."""
+    if isinstance(e, ast.IfExp):
+        yield from _safe_calls(e.test)
+        return
+    if isinstance(e, ast.BoolOp):
+        yield from _safe_calls(e.values[0])
+        return
+    if isinstance(e, ast.Lambda):
+        return
+    if isinstance(e, COMPS):
+        yield from _safe_calls(e.generators[0].iter)
+        return
+    for c in ast.iter_child_nodes(e):
+        yield from _safe_calls(c)
+    if isinstance(e, ast.Call):
+        yield e
+
+
+def _roots(st):
+    if isinstance(st, (ast.Assign, ast.AugAssign, ast.Expr)):
+        return [st.value]
+    if isinstance(st, (ast.AnnAssign, ast.Return)) and st.value is not None:
+        return [st.value]
+    if isinstance(st, ast.If):
+        return [st.test]
+    if isinstance(st, (ast.For, ast.AsyncFor)):
+        return [st.iter]
+    return []
+
+
+def _replace(root, old, new) -> bool:
+    for n in ast.walk(root):
+        for field, val in ast.iter_fields(n):
+            if val is old:
+                setattr(n, field, new)
+                return True
+            if isinstance(val, list):
+                for i, x in enumerate(val):
+                    if x is old:
+                        val[i] = new
+                        return True
+    return False
+
+
+def _inlinable_body(g: FunctionInfo) -> bool:
+    for d in g.node.decorator_list:
+        if not (isinstance(d, ast.Name) and d.id == "staticmethod"):
+            return False
+    for n in ast.walk(g.node):
+        if n is g.node:
+            continue
+        if isinstance(n, _FUNCS + (ast.ClassDef, ast.Lambda, ast.Global, ast.Nonlocal, ast.Yield, ast.YieldFrom, ast.Await)):
+            return False
+    return True
+
+
+class _Normaliser:
+    def __init__(self, ctx, f: FunctionInfo):
+        import builtins
+        self.ctx, self.f = ctx, f
+        self.counter = 0
+        m = f.module
+        self.local_names = {n.id for n in ast.walk(f.node) if isinstance(n, ast.Name) and isinstance(n.ctx, (ast.Store, ast.Del))} | set(f.params)
+        self.used = {n.id for n in ast.walk(f.node) if isinstance(n, ast.Name)} | set(f.params) | set(m.functions) | set(m.classes) \
+            | set(m.imports) | set(m.assigns) | set(dir(builtins))
+        self.inlined: List[str] = []
+
+    def build(self) -> SynFunc:
+        node = _cp(self.f.node)
+        node.body = self._block(node.body, (self.f,))
+        _split_parallel(node)
+        ast.fix_missing_locations(node)
+        set_parents(node)
+        _number(node)
+        F = SynFunc(self.f, node, "norm")
+        F.inlined = list(self.inlined)
+        return F
+
+    # -- which calls are looked through
+    def _target(self, call: ast.Call) -> Optional[FunctionInfo]:
+        if getattr(call, "_noinline", False):
+            return None
+        fn, m, repo = call.func, self.f.module, self.ctx.repo
+        g = None
+        if isinstance(fn, ast.Name):
+            if fn.id in self.local_names:
+                return None
+            r = repo.resolve_name(m, fn.id)
+            if isinstance(r, FunctionInfo) and r.module is m and r.cls is None and r.parent is None:
+                g = r
+        elif isinstance(fn, ast.Attribute) and isinstance(fn.value, ast.Name):
+            if self.f.cls is not None and self.f.self_name is not None and fn.value.id == self.f.self_name:
+                r = repo.lookup_method(self.f.cls, fn.attr)
+                if r is not None and r.module is m and not any(fn.attr in s.methods for s in repo.subclasses(self.f.cls, strict=True)):
+                    g = r
+            elif fn.value.id not in self.local_names:
+                r = repo.resolve_expr(m, fn)
+                if isinstance(r, FunctionInfo) and r.is_static and r.module is m:
+                    g = r
+        if g is None:
+            return None
+        name = g.name
+        if name in ANCHORS or (name.startswith("__") and name.endswith("__")):
+            return None
+        if not name.startswith("_") and len(self.ctx.cg.call_sites_of(g)) != 1:
+            return None
+        return g
+
+    def _block(self, stmts, stack):
+        out = []
+        for st in stmts:
+            if isinstance(st, _FUNCS + (ast.ClassDef,)):
+                out.append(st)
+                continue
+            for fld in ("body", "orelse", "finalbody"):
+                b = getattr(st, fld, None)
+                if isinstance(b, list) and b and isinstance(b[0], ast.stmt):
+                    setattr(st, fld, self._block(b, stack))
+            if isinstance(st, ast.Try):
+                for h in st.handlers:
+                    h.body = self._block(h.body, stack)
+            out.extend(self._stmt(st, stack))
+        return out
+
+    def _stmt(self, st, stack):
+        pre_all = []
+        for _ in range(40):
+            hit = None
+            for root in _roots(st):
+                for c in _safe_calls(root):
+                    g = self._target(c)
+                    if g is not None:
+                        hit = (c, g)
+                        break
+                if hit:
+                    break
+            if hit is None:
+                break
+            res = self._expand(st, hit[0], hit[1], stack)
+            if res is None:
+                hit[0]._noinline = True
+                continue
+            pre, st2 = res
+            pre_all.extend(pre)
+            if st2 is None:
+                return pre_all
+            st = st2
+        return pre_all + [st]
+
+    def _expand(self, st, call, g, stack):
+        if g in stack or len(stack) > 6 or not _inlinable_body(g):
+            return None
+        a = g.node.args
+        if a.vararg or a.kwarg:
+            return None
+        if any(isinstance(x, ast.Starred) for x in call.args) or any(k.arg is None for k in call.keywords):
+            return None
+        pos = [x.arg for x in a.posonlyargs + a.args]
+        kwonly = [x.arg for x in a.kwonlyargs]
+        binding: Dict[str, ast.AST] = {}
+        free = list(pos)
+        if g.cls is not None and not g.is_static:
+            if g.is_classmethod or g.is_property or not isinstance(call.func, ast.Attribute) or not pos:
+                return None
+            binding[pos[0]] = call.func.value
+            free = pos[1:]
+        if len(call.args) > len(free):
+            return None
+        for p, v in zip(free, call.args):
+            binding[p] = v
+        for k in call.keywords:
+            if k.arg in binding or k.arg not in pos + kwonly:
+                return None
+            binding[k.arg] = k.value
+        for i, d in enumerate(a.defaults):
+            binding.setdefault(pos[len(pos) - len(a.defaults) + i], d)
+        for nm, d in zip(kwonly, a.kw_defaults):
+            if d is not None:
+                binding.setdefault(nm, d)
+        params = pos + kwonly
+        if any(p not in binding for p in params):
+            return None
+        src = list(g.node.body)
+        if src and isinstance(src[0], ast.Expr) and isinstance(src[0].value, ast.Constant) and isinstance(src[0].value.value, str):
+            src = src[1:]
+        stored = {n.id for s in src for n in ast.walk(s) if isinstance(n, ast.Name) and isinstance(n.ctx, (ast.Store, ast.Del))} \
+            | {n.name for s in src for n in ast.walk(s) if isinstance(n, ast.ExceptHandler) and n.name}
+        free_globals = {n.id for s in src for n in ast.walk(s) if isinstance(n, ast.Name)} - stored - set(params)
+        sub = {p: binding[p] for p in params if p not in stored and isinstance(binding[p], (ast.Name, ast.Constant))}
+        self.counter += 1
+        k = self.counter
+        ren: Dict[str, str] = {}
+        for nm in params + sorted(stored):
+            if nm in sub or nm in ren:
+                continue
+            new = nm if nm not in self.used else f"{nm}__{k}"
+            while new in self.used:
+                new += "_"
+            self.used.add(new)
+            ren[nm] = new
+        pre = []
+        for p in params:
+            if p not in sub:
+                pre.append(_at(ast.Assign(targets=[ast.Name(id=ren[p], ctx=ast.Store())], value=_cp(binding[p])), call))
+        body = _cp(src, ren, sub)
+        is_assign = isinstance(st, ast.Assign) and st.value is call
+        is_expr = isinstance(st, ast.Expr) and st.value is call
+        is_ret = isinstance(st, ast.Return) and st.value is call
+        whole = is_assign or is_expr or is_ret
+        ret_name = f"ret__{k}"
+        emitted = []
+
+        def emit(x, at):
+            x = x if x is not None else ast.Constant(value=None)
+            ref = at if at is not None else call
+            if is_assign:
+                s = [_at(ast.Assign(targets=_cp(st.targets), value=x), ref)]
+            elif is_expr:
+                s = [] if isinstance(x, (ast.Name, ast.Constant)) else [_at(ast.Expr(value=x), ref)]
+            elif is_ret:
+                s = [_at(ast.Return(value=x), ref)]
+            else:
+                s = [_at(ast.Assign(targets=[ast.Name(id=ret_name, ctx=ast.Store())], value=x), ref)]
+            emitted.append((x, s))
+            return s
+        body2 = _tail(body, emit)
+        if body2 is None:
+            return None
+        single_last = len(emitted) == 1 and emitted[0][1] and body2 and body2[-1] is emitted[0][1][0]
+        new_st = None
+        if is_assign and single_last and len(st.targets) == 1:
+            # the helper's result variable *is* the caller's target: use one name for both
+            T, X = st.targets[0], emitted[0][0]
+            pairs = None
+            if isinstance(T, ast.Name) and isinstance(X, ast.Name):
+                pairs = [(T.id, X.id)]
+            elif isinstance(T, ast.Tuple) and isinstance(X, ast.Tuple) and len(T.elts) == len(X.elts) \
+                    and all(isinstance(e, ast.Name) for e in T.elts + X.elts):
+                pairs = [(t.id, x.id) for t, x in zip(T.elts, X.elts)]
+            if pairs:
+                inv = {v: kk for kk, v in ren.items()}
+                argreads = {n.id for v in binding.values() for n in ast.walk(v) if isinstance(n, ast.Name)}
+                tn, xn = [t for t, _ in pairs], [x for _, x in pairs]
+                if len(set(tn)) == len(tn) and len(set(xn)) == len(xn) and all(x in inv and inv[x] in stored and inv[x] not in params for x in xn) \
+                        and not (set(tn) & argreads) and not (set(tn) & free_globals) and not (set(tn) & (set(ren.values()) - set(xn))):
+                    m = dict(zip(xn, tn))
+                    body2 = body2[:-1]
+                    for s in body2:
+                        for n in ast.walk(s):
+                            if isinstance(n, ast.Name) and n.id in m:
+                                n.id = m[n.id]
+        if not whole:
+            if single_last and isinstance(emitted[0][0], (ast.Name, ast.Constant)):
+                body2 = body2[:-1]
+                repl = _cp(emitted[0][0])
+                if isinstance(repl, ast.Name):
+                    repl.ctx = ast.Load()
+            else:
+                self.used.add(ret_name)
+                repl = _at(ast.Name(id=ret_name, ctx=ast.Load()), call)
+            if not _replace(st, call, repl):
+                return None
+            new_st = st
+        self.inlined.append(g.qualname)
+        return self._block(pre + body2, stack + (g,)), new_st
+
+
+def _split_parallel(node):
+    """`a, b = x, y` -> `a = x; b = y` where no right-hand side reads a target (same meaning, simpler definitions)."""
+    for n in ast.walk(node):
+        for fld in ("body", "orelse", "finalbody"):
+            b = getattr(n, fld, None)
+            if not (isinstance(b, list) and b and isinstance(b[0], ast.stmt)):
+                continue
+            out = []
+            for st in b:
+                if isinstance(st, ast.Assign) and len(st.targets) == 1 and isinstance(st.targets[0], ast.Tuple) and isinstance(st.value, ast.Tuple) \
+                        and len(st.targets[0].elts) == len(st.value.elts) and all(isinstance(t, ast.Name) for t in st.targets[0].elts) \
+                        and not any(isinstance(v, ast.Starred) for v in st.value.elts):
+                    tn = {t.id for t in st.targets[0].elts}
+                    reads = {x.id for v in st.value.elts for x in ast.walk(v) if isinstance(x, ast.Name)}
+                    if not (tn & reads) and len(tn) == len(st.targets[0].elts):
+                        for t, v in zip(st.targets[0].elts, st.value.elts):
+                            out.append(_at(ast.Assign(targets=[t], value=v), st))
+                        continue
+                out.append(st)
+            setattr(n, fld, out)
+
+
+def syn(ctx, f: FunctionInfo) -> SynFunc:
+    cache = ctx.__dict__.setdefault("_c17_syn", {})
+    key = (f.module.rel, f.qualname)
+    if key not in cache:
+        cache[key] = _Normaliser(ctx, f).build()
+    return cache[key]
+
+
+# ---- case split on loop-invariant boolean flags ------------------------------------------------
+
+def _test_uses(F, name):
+    """Loads of `name` that are (an and/or/not combination inside) the test of an if statement / conditional expression."""
+    out = []
+    for n in walk_shallow(F.node):
+        if isinstance(n, ast.Name) and n.id == name and isinstance(n.ctx, ast.Load):
+            c, p = n, parent(n)
+            while isinstance(p, (ast.BoolOp, ast.UnaryOp)) and (not isinstance(p, ast.UnaryOp) or isinstance(p.op, ast.Not)):
+                c, p = p, parent(p)
+            if isinstance(p, (ast.If, ast.IfExp)) and p.test is c:
+                out.append(n)
+    return out
+
+
+def _flags(ctx, F) -> List[str]:
+    stores: Dict[str, list] = {}
+    for n in walk_shallow(F.node):
+        if isinstance(n, ast.Name) and isinstance(n.ctx, (ast.Store, ast.Del)):
+            stores.setdefault(n.id, []).append(n)
+    cfg = ctx.cfg(F)
+    out = []
+    for name, ss in stores.items():
+        if len(ss) != 1 or name in F.params:
+            continue
+        d = parent(ss[0])
+        if not (isinstance(d, ast.Assign) and len(d.targets) == 1 and d.targets[0] is ss[0]):
+            continue
+        uses = _test_uses(F, name)
+        if len(uses) < 2:
+            continue
+        loops = [a for a in ancestors(d) if isinstance(a, (ast.For, ast.AsyncFor, ast.While))]
+        inner = loops[0] if loops else None
+        ok = True
+        for u in uses:
+            us = stmt_of(cfg, u)
+            if us is None or us is d or not cfg.dominates(d, us) or (inner is not None and not contains(inner, u)):
+                ok = False
+        if ok:
+            out.append(name)
+    return sorted(out)
+
+
+def _simp_test(e, asg):
+    """Fold a test under the assumption `asg` (name -> bool): a Constant when decided, else a (possibly simpler) expression."""
+    if isinstance(e, ast.Name) and e.id in asg:
+        return ast.copy_location(ast.Constant(value=asg[e.id]), e)
+    if isinstance(e, ast.UnaryOp) and isinstance(e.op, ast.Not):
+        v = _simp_test(e.operand, asg)
+        if isinstance(v, ast.Constant):
+            return ast.copy_location(ast.Constant(value=not v.value), e)
+        e.operand = v
+        return e
+    if isinstance(e, ast.BoolOp):
+        is_and = isinstance(e.op, ast.And)
+        vals = []
+        for x in e.values:
+            v = _simp_test(x, asg)
+            if isinstance(v, ast.Constant) and isinstance(v.value, bool):
+                if v.value != is_and:
+                    return ast.copy_location(ast.Constant(value=not is_and), e)
+                continue
+            vals.append(v)
+        if not vals:
+            return ast.copy_location(ast.Constant(value=is_and), e)
+        if len(vals) == 1:
+            return vals[0]
+        e.values = vals
+        return e
+    return e
+
+
+def _spec_expr(e, asg):
+    if not isinstance(e, ast.AST):
+        return e
+    for field, val in ast.iter_fields(e):
+        if isinstance(val, list):
+            setattr(e, field, [_spec_expr(x, asg) for x in val])
+        elif isinstance(val, ast.AST):
+            setattr(e, field, _spec_expr(val, asg))
+    if isinstance(e, ast.IfExp):
+        t = _simp_test(e.test, asg)
+        if isinstance(t, ast.Constant) and isinstance(t.value, bool):
+            return e.body if t.value else e.orelse
+        e.test = t
+    return e
+
+
+def _spec_block(stmts, asg):
+    out = []
+    for st in stmts:
+        for fld in ("body", "orelse", "finalbody"):
+            b = getattr(st, fld, None)
+            if isinstance(b, list) and (not b or isinstance(b[0], ast.stmt)) and isinstance(st, ast.stmt):
+                setattr(st, fld, _spec_block(b, asg))
+        if isinstance(st, ast.Try):
+            for h in st.handlers:
+                h.body = _spec_block(h.body, asg)
+        for field, val in ast.iter_fields(st):
+            if field in ("body", "orelse", "finalbody", "handlers"):
+                continue
+            if isinstance(val, list):
+                setattr(st, field, [_spec_expr(x, asg) for x in val])
+            elif isinstance(val, ast.AST):
+                setattr(st, field, _spec_expr(val, asg))
+        if isinstance(st, ast.If):
+            t = _simp_test(st.test, asg)
+            if isinstance(t, ast.Constant) and isinstance(t.value, bool):
+                out.extend(st.body if t.value else st.orelse)
+                continue
+            st.test = t
+            if not st.body:
+                st.body = [_at(ast.Pass(), st)]
+        out.append(st)
+    return out
+
+
+def variants(ctx, F: SynFunc) -> List[SynFunc]:
+    """One copy of F per truth assignment of its loop-invariant flags (F itself when there are none)."""
+    cache = ctx.__dict__.setdefault("_c17_var", {})
+    if F not in cache:
+        flags = _flags(ctx, F)[:3]
+        if not flags:
+            cache[F] = [F]
+        else:
+            out = []
+            for combo in itertools.product((True, False), repeat=len(flags)):
+                asg = dict(zip(flags, combo))
+                node = _cp(F.node)
+                node.body = _spec_block(node.body, asg) or [ast.Pass()]
+                ast.fix_missing_locations(node)
+                set_parents(node)
+                _number(node)
+                out.append(SynFunc(F.orig, node, "case " + ",".join(f"{k}={v}" for k, v in asg.items())))
+            cache[F] = out
+    return cache[F]
+
+
+# ---- values by role --------------------------------------------------------------------------------
+
+def comp_generator_of(name: ast.Name):
+    """The comprehension generator that binds this use of a name, the string 'lambda' for a lambda parameter, or None."""
+    for a in ancestors(name):
+        if isinstance(a, COMPS):
+            gens = a.generators
+            vis = len(gens)
+            for i, g in enumerate(gens):
+                if contains(g.iter, name):
+                    vis = i
+                    break
+                if any(contains(c, name) for c in g.ifs):
+                    vis = i + 1
+                    break
+            for g in reversed(gens[:vis]):
+                if name.id in target_names(g.target):
+                    return g
+        elif isinstance(a, ast.Lambda):
+            args = a.args
+            if name.id in [x.arg for x in args.posonlyargs + args.args + args.kwonlyargs]:
+                return "lambda"
+        elif isinstance(a, _FUNCS):
+            break
+    return None
+
+
+def block_of(st: ast.stmt) -> Optional[list]:
+    p = parent(st)
+    for field in ("body", "orelse", "finalbody"):
+        b = getattr(p, field, None)
+        if isinstance(b, list) and any(x is st for x in b):
+            return b
+    return None
+
+
+def resolve(ctx, F, e: ast.AST, depth: int = 8) -> ast.AST:
+    """Follow `name = expr` while the name has exactly one reaching plain definition."""
+    while depth > 0 and isinstance(e, ast.Name) and comp_generator_of(e) is None:
+        defs = ctx.rd(F).defs_reaching(e)
+        if len(defs) != 1 or isinstance(defs[0], ast.arguments):
+            break
+        v = assigned_value(defs[0], e.id)
+        if v is None:
+            break
+        e = v
+        depth -= 1
+    return e
+
+
+def terminal_defs(ctx, F, n: ast.Name, depth: int = 8):
+    """Definitions behind plain aliases: [(defining node, value expression or None, name)] - a definition `a = b` is replaced by the
+    definitions of `b` that reach it."""
+    out, seen = [], set()
+
+    def go(x, d):
+        if comp_generator_of(x) is not None:
+            out.append((comp_generator_of(x), None, x.id))
+            return
+        for df in ctx.rd(F).defs_reaching(x):
+            if id(df) in seen:
+                continue
+            seen.add(id(df))
+            v = None if isinstance(df, ast.arguments) else assigned_value(df, x.id)
+            if isinstance(v, ast.Name) and d > 0:
+                go(v, d - 1)
+            else:
+                out.append((df, v, x.id))
+    go(n, depth)
+    return out
+
+
+def same_origin(ctx, F, a, b) -> bool:
+    if not (isinstance(a, ast.Name) and isinstance(b, ast.Name)):
+        return False
+    da = {id(d) for d, _, _ in terminal_defs(ctx, F, a)}
+    db = {id(d) for d, _, _ in terminal_defs(ctx, F, b)}
+    return bool(da) and da == db
+
+
+def is_param(ctx, F, e, pname: Optional[str] = None) -> bool:
+    """`e` is (an alias of) the function's own, never re-bound parameter."""
     if not isinstance(e, ast.Name) or comp_generator_of(e) is not None:
         return False
-    if pname is not None and e.id != pname:
+    tds = terminal_defs(ctx, F, e)
+    return len(tds) == 1 and isinstance(tds[0][0], ast.arguments) and tds[0][2] in F.params and (pname is None or tds[0][2] == pname)
+
+
+def _stable(ctx, F, d, use_node, value) -> bool:
+    """May `value` (right-hand side of definition `d`) be substituted at `use_node`?  Yes unless something it reads is re-bound on a
+    path from `d` to the use that does not pass through `d` again."""
+    cfg = ctx.cfg(F)
+    use_st = stmt_of(cfg, use_node)
+    if use_st is None or d not in cfg.g:
         return False
-    defs = ctx.rd(f).defs_reaching(e)
-    return len(defs) == 1 and isinstance(defs[0], ast.arguments) and e.id in f.params
+    rn, ra = _reads(value)
+    off = []
+    for st in cfg.stmts():
+        if st is d or st is use_st:
+            continue
+        wn, wa = _rebinds(st)
+        if (wn & rn) or any(a == b or b.startswith(a + ".") for a in wa for b in ra):
+            off.append(st)
+    if not off:
+        return True
+
+    def reach(start):
+        seen, stack = set(), [s for s in cfg.g.successors(start) if s is not d]
+        while stack:
+            n = stack.pop()
+            if n in seen:
+                continue
+            seen.add(n)
+            stack.extend(s for s in cfg.g.successors(n) if s is not d and s not in seen)
+        return seen
+    fwd = reach(d)
+    return not any(st in fwd and (use_st in reach(st)) for st in off)
 
 
-def _is_deepcopy(ctx, f, e) -> bool:
-    return isinstance(e, ast.Call) and ctx.repo.external_name(f.module, e.func) in ("copy.deepcopy",) and len(e.args) == 1
+_EXPANDABLE = (ast.Name, ast.Attribute, ast.Subscript, ast.Call, ast.BinOp, ast.UnaryOp, ast.Compare, ast.Constant, ast.IfExp, ast.Tuple,
+               ast.BoolOp, ast.JoinedStr, ast.Dict, ast.List)
+
+
+def expand(ctx, F, node: ast.AST, depth: int = 8) -> ast.AST:
+    """Copy of an expression in which every local with exactly one reaching plain definition is replaced by that definition's value
+    (recursively), provided nothing the value reads is re-bound in between.  Parameters, loop variables and names with several
+    definitions stay; the copies keep their position (parent pointer), so reaching definitions can still be asked of them; `_src`
+    is the node of the function a copy stands for."""
+    rd = ctx.rd(F)
+
+    def T(n, d):
+        if isinstance(n, ast.Name) and isinstance(n.ctx, ast.Load) and d > 0 and comp_generator_of(n) is None:
+            defs = rd.defs_reaching(n)
+            if len(defs) == 1 and not isinstance(defs[0], ast.arguments):
+                v = assigned_value(defs[0], n.id)
+                if v is not None and isinstance(v, _EXPANDABLE) and _stable(ctx, F, defs[0], n, v):
+                    return T(v, d - 1)
+        if not isinstance(n, ast.AST):
+            return n
+        new = _copy.copy(n)
+        new._src = getattr(n, "_src", n)
+        for field, val in ast.iter_fields(n):
+            if isinstance(val, list):
+                setattr(new, field, [T(x, d) if isinstance(x, ast.AST) else x for x in val])
+            elif isinstance(val, ast.AST):
+                setattr(new, field, T(val, d))
+        return new
+    return fold_tuples(T(node, depth))
+
+
+def fold_tuples(e):
+    """(a, b) + (c,) -> (a, b, c)"""
+    if isinstance(e, ast.BinOp) and isinstance(e.op, ast.Add):
+        l, r = fold_tuples(e.left), fold_tuples(e.right)
+        if isinstance(l, ast.Tuple) and isinstance(r, ast.Tuple):
+            new = _copy.copy(l)
+            new.elts = list(l.elts) + list(r.elts)
+            return new
+    return e
+
+
+def same_value(ctx, F, a: ast.AST, b: ast.AST) -> bool:
+    """Equal expressions (after substituting single-definition locals) all of whose names have identical bindings."""
+    def eq(x, y):
+        if ast.dump(x) != ast.dump(y):
+            return False
+        rd = ctx.rd(F)
+        nx = [n for n in ast.walk(x) if isinstance(n, ast.Name)]
+        ny = [n for n in ast.walk(y) if isinstance(n, ast.Name)]
+        for p, q in zip(nx, ny):
+            gp, gq = comp_generator_of(p), comp_generator_of(q)
+            if gp is not None or gq is not None:
+                if gp is not gq:
+                    return False
+                continue
+            if {id(d) for d in rd.defs_reaching(p)} != {id(d) for d in rd.defs_reaching(q)}:
+                return False
+        return True
+    return eq(a, b) or eq(expand(ctx, F, a), expand(ctx, F, b))
+
+
+class Elem:
+    """`name` denotes, in the current iteration of `binder`, the element at `path` of one item of `container`.
+    kind: elem (an item of the iterable; for a dict: a key), key / value / item (of `container.items()` ...), index (position)."""
+    __slots__ = ("container", "binder", "path", "kind", "snapshot")
+
+    def __init__(self, container, binder, path, kind, snapshot):
+        self.container, self.binder, self.path, self.kind, self.snapshot = container, binder, tuple(path), kind, snapshot
+
+    def extend(self, p):
+        return Elem(self.container, self.binder, self.path + (p,), self.kind, self.snapshot)
+
+
+def _strip_snapshot(e):
+    snap = False
+    while isinstance(e, ast.Call) and not e.keywords:
+        if isinstance(e.func, ast.Name) and e.func.id in ("list", "tuple", "dict", "deepcopy", "copy") and len(e.args) == 1:
+            e, snap = e.args[0], True
+        elif isinstance(e.func, ast.Attribute) and e.func.attr == "copy" and not e.args:
+            e, snap = e.func.value, True
+        elif isinstance(e.func, ast.Attribute) and e.func.attr in ("deepcopy", "copy") and len(e.args) == 1 and isinstance(e.func.value, ast.Name) \
+                and e.func.value.id == "copy":
+            e, snap = e.args[0], True
+        else:
+            break
+    return e, snap
+
+
+def _path_in(target, name):
+    """Path of `name` inside a (nested) tuple target: () for the plain name, (i, ...) else; a starred element is ('*', i)."""
+    if isinstance(target, ast.Name):
+        return () if target.id == name else None
+    if isinstance(target, (ast.Tuple, ast.List)):
+        for i, t in enumerate(target.elts):
+            if isinstance(t, ast.Starred):
+                if isinstance(t.value, ast.Name) and t.value.id == name:
+                    return (("*", i),)
+                continue
+            p = _path_in(t, name)
+            if p is not None:
+                return (i,) + p
+    return None
+
+
+def _iter_elem(it, path):
+    it, snap = _strip_snapshot(it)
+    if isinstance(it, ast.Call):
+        nm = call_name(it)
+        if isinstance(it.func, ast.Name) and nm == "enumerate" and it.args:
+            if not path:
+                return None
+            if path[0] == 0:
+                return _strip_snapshot(it.args[0])[0], "index", path[1:], snap
+            if path[0] == 1:
+                r = _iter_elem(it.args[0], path[1:])
+                return None if r is None else (r[0], r[1], r[2], r[3] or snap)
+            return None
+        if isinstance(it.func, ast.Name) and nm == "zip":
+            if not path or not isinstance(path[0], int) or path[0] >= len(it.args):
+                return None
+            return _iter_elem(it.args[path[0]], path[1:])
+        if isinstance(it.func, ast.Name) and nm == "range":
+            if path:
+                return None
+            cont = None
+            if len(it.args) == 1 and isinstance(it.args[0], ast.Call) and isinstance(it.args[0].func, ast.Name) and it.args[0].func.id == "len" \
+                    and len(it.args[0].args) == 1:
+                cont = it.args[0].args[0]
+            return cont, "index", (), snap
+        if isinstance(it.func, ast.Attribute) and nm in ("items", "keys", "values") and not it.args and not it.keywords:
+            recv, s2 = _strip_snapshot(it.func.value)
+            if nm == "items":
+                if not path:
+                    return recv, "item", (), snap or s2
+                if path[0] in (0, 1):
+                    return recv, ("key", "value")[path[0]], path[1:], snap or s2
+                return None
+            return recv, ("key" if nm == "keys" else "value"), path, snap or s2
+    return it, "elem", path, snap
+
+
+def elem_of(ctx, F, n, depth: int = 6) -> Optional[Elem]:
+    if depth <= 0 or not isinstance(n, ast.Name):
+        return None
+    g = comp_generator_of(n)
+    if g == "lambda":
+        return None
+    if g is not None:
+        target, it, binder = g.target, g.iter, g
+    else:
+        defs = ctx.rd(F).defs_reaching(n)
+        if len(defs) != 1:
+            return None
+        d = defs[0]
+        if isinstance(d, (ast.For, ast.AsyncFor)):
+            target, it, binder = d.target, d.iter, d
+        elif isinstance(d, ast.Assign) and len(d.targets) == 1:
+            t, v = d.targets[0], d.value
+            p = _path_in(t, n.id)
+            if p is None:
+                return None
+            if isinstance(v, ast.Subscript) and isinstance(v.slice, ast.Slice) and v.slice.lower is None and v.slice.step is None and p:
+                v = v.value                                                     # a, b, c = record[:3]
+            e = None
+            if isinstance(v, ast.Name):
+                e = elem_of(ctx, F, v, depth - 1)
+            elif isinstance(v, ast.Subscript) and isinstance(v.value, ast.Name):
+                idx = v.slice
+                if isinstance(idx, ast.Constant) and isinstance(idx.value, int) and not isinstance(idx.value, bool):
+                    b = elem_of(ctx, F, v.value, depth - 1)
+                    e = b.extend(idx.value) if b is not None else None
+                elif isinstance(idx, ast.Name):
+                    ie = elem_of(ctx, F, idx, depth - 1)                         # x = xs[i] in `for i in range(len(xs))`
+                    if ie is not None and ie.kind == "index" and not ie.path and ie.container is not None \
+                            and ast.dump(expand(ctx, F, ie.container)) == ast.dump(expand(ctx, F, v.value)):
+                        e = Elem(v.value, ie.binder, (), "elem", ie.snapshot)
+            if e is None:
+                return None
+            for x in p:
+                e = e.extend(x)
+            return e
+        else:
+            return None
+    p = _path_in(target, n.id)
+    if p is None:
+        return None
+    r = _iter_elem(expand(ctx, F, it), p)
+    if r is None:
+        return None
+    return Elem(r[0], binder, r[2], r[1], r[3])
+
+
+def _func(ctx, name) -> SynFunc:
+    return syn(ctx, ctx.repo.get_func(UT, name))
+
+
+def _calls(F, name):
+    return ordered([c for c in walk_shallow(F.node) if isinstance(c, ast.Call) and call_name(c) == name])
+
+
+def _is_deepcopy(ctx, F, e) -> bool:
+    return isinstance(e, ast.Call) and ctx.repo.external_name(F.module, e.func) in ("copy.deepcopy",) and len(e.args) == 1
 
 
 def _the_run_call(ctx, gs, rid):
@@ -73,7 +932,7 @@ def _the_run_call(ctx, gs, rid):
 
 
 def _row_loop(ctx, gs, rid):
-    """(loop, update_template call, circuits dict) of grid_search."""
+    """(loop, update_template call) of grid_search."""
     ups = [c for c in _calls(gs, "update_template")]
     ctx.require(len(ups) == 1, f"{rid}: expected one update_template call in grid_search, found {len(ups)}")
     up = ups[0]
@@ -82,9 +941,67 @@ def _row_loop(ctx, gs, rid):
     return loops[0], up
 
 
+def _row_entry(ctx, gs, up, rid):
+    """(key, value) of the single `{key: circuit}` entry handed to update_template(circuits=...)."""
+    cd = {k.arg: k.value for k in up.keywords}.get("circuits")
+    cd = resolve(ctx, gs, cd) if cd is not None else None
+    ctx.require(isinstance(cd, ast.Dict) and len(cd.keys) == 1 and cd.keys[0] is not None,
+                f"{rid}: `{norm(up)}` does not add exactly one `{{key: circuit}}` entry (unrecognised form)")
+    return cd.keys[0], cd.values[0]
+
+
+def _row_table(ctx, gs, loop, rid):
+    """The table whose `.index` the row loop iterates (a Name), or None when the loop counts positions (`range(...)`)."""
+    it = resolve(ctx, gs, loop.iter)
+    if isinstance(it, ast.Call) and isinstance(it.func, ast.Name) and it.func.id in ("list", "tuple") and len(it.args) == 1:
+        it = resolve(ctx, gs, it.args[0])
+    if isinstance(it, ast.Attribute) and it.attr == "index" and isinstance(it.value, ast.Name):
+        return it.value
+    if isinstance(it, ast.Call) and isinstance(it.func, ast.Name) and it.func.id == "range":
+        return None
+    raise AnalysisError(f"{rid}: the row loop iterates `{norm(loop.iter)}`, not `<table>.index` (unrecognised form)")
+
+
+def _bind_call(g: FunctionInfo, call: ast.Call) -> Dict[str, ast.AST]:
+    params = list(g.params)
+    if g.cls is not None and not g.is_static and params:
+        params = params[1:]
+    bound = dict(zip(params, call.args))
+    bound.update({k.arg: k.value for k in call.keywords if k.arg is not None})
+    return bound
+
+
 # --------------------------------------------------------------------------------------------
 # R1 — private copy per row, rows uncoupled
 # --------------------------------------------------------------------------------------------
+
+_SHARING_CALLS = {"copy", "from_yaml", "update_template", "CircuitTemplate", "from_file"}
+
+
+def _copy_sources(ctx, F, e, rid, depth=6):
+    """[(kind, node, name)] for everything the template expression `e` may be: kind copy | param | shared."""
+    if depth <= 0:
+        raise AnalysisError(f"{rid}: cannot trace `{norm(e)}` in {F.orig.qualname}")
+    if _is_deepcopy(ctx, F, e):
+        return [("copy", e, None)]
+    if isinstance(e, ast.IfExp):
+        return _copy_sources(ctx, F, e.body, rid, depth - 1) + _copy_sources(ctx, F, e.orelse, rid, depth - 1)
+    if isinstance(e, ast.Name):
+        out = []
+        for d, v, nm in terminal_defs(ctx, F, e):
+            if isinstance(d, ast.arguments):
+                out.append(("param", d, nm))
+            elif v is None:
+                raise AnalysisError(f"{rid}: `{nm}` is bound by `{norm(d)}` (unrecognised form)")
+            else:
+                out += [(k, d, nm) for k, _, _ in _copy_sources(ctx, F, v, rid, depth - 1)]
+        return out
+    if isinstance(e, ast.Call) and call_name(e) in _SHARING_CALLS:
+        return [("shared", e, None)]
+    if isinstance(e, ast.Attribute):
+        return [("shared", e, None)]
+    raise AnalysisError(f"{rid}: `{norm(e)}` is neither a deepcopy nor a recognised way of sharing a template (unrecognised form)")
+
 
 def r1_private_copy_uncoupled(ctx, rid):
     ac = _func(ctx, "adapt_circuit")
@@ -94,16 +1011,22 @@ def r1_private_copy_uncoupled(ctx, rid):
                 f"{rid}: expected one `<template>.update_var(...)` call in adapt_circuit")
     uv = uvs[0]
     recv = uv.func.value
-    defs = ctx.rd(ac).defs_reaching(recv)
-    ctx.require(defs, f"{rid}: `{recv.id}` has no definition in adapt_circuit")
-    for d in ordered([x for x in defs if isinstance(x, ast.AST) and hasattr(x, "lineno")]) + [x for x in defs if isinstance(x, ast.arguments)]:
-        if isinstance(d, ast.arguments):
+    srcs = _copy_sources(ctx, ac, recv, rid)
+    ctx.require(srcs, f"{rid}: `{recv.id}` has no definition in adapt_circuit")
+    done = set()
+    for kind, d, nm in sorted(srcs, key=lambda t: getattr(t[1], "_ord", -1)):
+        if kind == "param":
+            if "param" in done:
+                continue
+            done.add("param")
             ctx.violation(rid, ac, uv, f"on some path `{recv.id}` is still the caller's own template when update_var is applied: the sweep would "
                                        f"write one row's parameter values into the template every other row (and the caller) uses",
                           label=f"private copy: parameter `{recv.id}` reaches update_var")
             continue
-        v = assigned_value(d, recv.id)
-        if v is not None and _is_deepcopy(ctx, ac, v):
+        if id(d) in done:
+            continue
+        done.add(id(d))
+        if kind == "copy" and not any(k != "copy" for k, d2, _ in srcs if d2 is d):
             ctx.ok(rid, ac, d, "the template that receives update_var is a deepcopy on this path", label=f"private copy: {norm(d)}")
         else:
             ctx.violation(rid, ac, d, f"`{norm(d)}` binds the template that receives update_var to something that is not a deepcopy: grid rows "
@@ -113,27 +1036,28 @@ def r1_private_copy_uncoupled(ctx, rid):
     upd = ctx.repo.get_func(CIRC, "CircuitTemplate.update_var")
     self_rets = [n for n in walk_shallow(upd.node) if isinstance(n, ast.Return)]
     returns_self = bool(self_rets) and all(isinstance(r.value, ast.Name) and r.value.id == upd.self_name for r in self_rets)
-    direct = len(rets) == 1 and rets[0].value is uv
-    via_name = len(rets) == 1 and isinstance(rets[0].value, ast.Name) and same_value(ctx, ac, rets[0].value, recv) \
-        and ctx.cfg(ac).dominates(stmt_of(ctx.cfg(ac), uv), rets[0])
+    ctx.require(len(rets) == 1 and rets[0].value is not None, f"{rid}: adapt_circuit does not have exactly one `return <value>` (unrecognised form)")
+    rv = rets[0].value
+    direct = resolve(ctx, ac, rv) is uv
+    ctx.require(direct or isinstance(rv, ast.Name), f"{rid}: adapt_circuit returns `{norm(rv)}` (unrecognised form)")
+    via_name = not direct and same_origin(ctx, ac, rv, recv) and ctx.cfg(ac).dominates(stmt_of(ctx.cfg(ac), uv), rets[0])
     if (direct and returns_self) or via_name:
         ctx.ok(rid, ac, rets[0], "adapt_circuit returns the updated private copy (update_var returns self)", label="returns the copy")
     else:
-        ctx.violation(rid, ac, rets[0] if rets else ac.node, "adapt_circuit does not return the template it updated "
-                                                              f"(update_var returns self: {returns_self})", label="returns the copy")
+        ctx.violation(rid, ac, rets[0], "adapt_circuit does not return the template it updated "
+                                        f"(update_var returns self: {returns_self})", label="returns the copy")
     # grid_search: per-row circuit = adapt_circuit(caller's template, row params, caller's map)
     loop, up = _row_loop(ctx, gs, rid)
-    kw = {k.arg: k.value for k in up.keywords}
-    cd = kw.get("circuits")
-    ctx.require(isinstance(cd, ast.Dict) and len(cd.keys) == 1 and cd.keys[0] is not None,
-                f"{rid}: `{norm(up)}` does not add exactly one `{{key: circuit}}` entry (unrecognised form)")
-    val = resolve_local(ctx, gs, cd.values[0])
-    good = isinstance(val, ast.Call) and isinstance(val.func, ast.Name) and ctx.repo.resolve_name(gs.module, val.func.id) is ac \
-        and contains(loop, val) and len(val.args) + len(val.keywords) == 3
+    _, entry = _row_entry(ctx, gs, up, rid)
+    val = resolve(ctx, gs, entry)
+    aco = ac.orig
+    is_adapt = isinstance(val, ast.Call) and isinstance(val.func, ast.Name) and ctx.repo.resolve_name(gs.module, val.func.id) == aco
+    if not is_adapt and any(isinstance(c, ast.Call) and call_name(c) == "adapt_circuit" for c in ast.walk(val)):
+        raise AnalysisError(f"{rid}: the sub-circuit of a row is `{norm(val)}`: adapt_circuit's result is wrapped (unrecognised form)")
+    good = is_adapt and contains(loop, val) and len(val.args) + len(val.keywords) == 3
     if good:
-        bound = dict(zip(ac.params, val.args))
-        bound.update({k.arg: k.value for k in val.keywords})
-        good = _unmodified_param(ctx, gs, bound.get(ac.params[0])) and _unmodified_param(ctx, gs, bound.get(ac.params[2]))
+        bound = _bind_call(aco, val)
+        good = is_param(ctx, gs, bound.get(aco.params[0])) and is_param(ctx, gs, bound.get(aco.params[2]))
     if good:
         ctx.ok(rid, gs, up, "the sub-circuit of each row is the value adapt_circuit returned for the caller's template and parameter map",
                {"row_circuit": norm(val)}, label="row circuit is adapt_circuit's result")
@@ -144,10 +1068,10 @@ def r1_private_copy_uncoupled(ctx, rid):
     # top-level circuit: empty template, only extended through update_template(circuits=...)
     run = _the_run_call(ctx, gs, rid)
     top = run.func.value
-    tdefs = ctx.rd(gs).defs_reaching(top)
-    ctx.require(tdefs, f"{rid}: `{top.id}` has no definition in grid_search")
-    for d in ordered([x for x in tdefs if not isinstance(x, ast.arguments)]):
-        v = assigned_value(d, top.id)
+    tds = terminal_defs(ctx, gs, top)
+    ctx.require(tds, f"{rid}: `{top.id}` has no definition in grid_search")
+    family = {id(d) for d, _, _ in tds}
+    for d, v, nm in sorted([x for x in tds if not isinstance(x[0], ast.arguments)], key=lambda t: getattr(t[0], "_ord", -1)):
         label = f"top-level circuit: {norm(d)}"
         if isinstance(v, ast.Call) and isinstance(v.func, ast.Name) and getattr(ctx.repo.resolve_name(gs.module, v.func.id), "name", None) == "CircuitTemplate":
             kws = {k.arg for k in v.keywords}
@@ -157,87 +1081,102 @@ def r1_private_copy_uncoupled(ctx, rid):
                 ctx.violation(rid, gs, d, f"the top-level circuit is created with content ({sorted(kws - {'name', 'path', 'description'})}): "
                                           f"the swept circuits would not be the only, uncoupled members", label=label)
         elif isinstance(v, ast.Call) and call_name(v) == "update_template" and isinstance(v.func, ast.Attribute) \
-                and isinstance(v.func.value, ast.Name) and v.func.value.id == top.id:
+                and isinstance(v.func.value, ast.Name) and {id(x) for x, _, _ in terminal_defs(ctx, gs, v.func.value)} <= family:
             kws = {k.arg for k in v.keywords}
             if kws <= {"circuits", "in_place"} and not v.args:
                 ctx.ok(rid, gs, d, "the top-level circuit is extended with a sub-circuit only (no edges between rows)", label=label)
             else:
                 ctx.violation(rid, gs, d, f"the top-level circuit is extended with {sorted(kws - {'circuits'}) or 'positional arguments'}: edges "
                                           f"or nodes at the top level couple the grid rows (each row must evolve on its own)", label=label)
-        else:
+        elif isinstance(v, ast.Call) and call_name(v) in ("adapt_circuit", "from_yaml", "deepcopy", "copy"):
             ctx.violation(rid, gs, d, f"the circuit that is run is bound by `{norm(d)}`, neither an empty CircuitTemplate nor "
                                       f"update_template(circuits=...) of it", label=label)
-    if any(isinstance(x, ast.arguments) for x in tdefs):
+        else:
+            raise AnalysisError(f"{rid}: the circuit that is run is bound by `{norm(d)}` (unrecognised form)")
+    if any(isinstance(d, ast.arguments) for d, _, _ in tds):
         ctx.violation(rid, gs, run, f"`{top.id}` may still be a parameter of grid_search when it is run", label="top-level circuit: parameter")
     # no other use of the top-level circuit
-    for n in walk_shallow(gs.node):
-        if isinstance(n, ast.Name) and n.id == top.id and isinstance(n.ctx, ast.Load) and comp_generator_of(n) is None:
+    for n in ordered(walk_shallow(gs.node)):
+        if isinstance(n, ast.Name) and isinstance(n.ctx, ast.Load) and comp_generator_of(n) is None \
+                and {id(x) for x, _, _ in terminal_defs(ctx, gs, n)} & family:
             p = parent(n)
             gp = parent(p) if p is not None else None
             if isinstance(p, ast.Attribute) and isinstance(gp, ast.Call) and gp.func is p and p.attr in ("update_template", "run"):
                 continue
+            if isinstance(p, ast.Assign) and p.value is n and all(isinstance(t, ast.Name) for t in p.targets):
+                continue                                                        # plain alias
             st = stmt_of(ctx.cfg(gs), n)
             if isinstance(p, ast.Attribute) and isinstance(gp, ast.Call) and gp.func is p and re.search(r"edge|connect|update_var|add_", p.attr):
                 ctx.violation(rid, gs, st, f"`{norm(gp)}` alters the top-level circuit outside update_template(circuits=...): the rows of the "
                                            f"sweep may become coupled", label=f"top-level circuit: other use {norm(st)}")
             else:
-                raise AnalysisError(f"{rid}: unrecognised use of the top-level circuit `{top.id}` in `{norm(st)}`")
+                raise AnalysisError(f"{rid}: unrecognised use of the top-level circuit `{n.id}` in `{norm(st)}`")
 
 
 # --------------------------------------------------------------------------------------------
 # R2 — one key per row
 # --------------------------------------------------------------------------------------------
 
+def _appends_to(ctx, F, lst: ast.Name):
+    """[(statement, appended expression)] for `<lst>.append(x)` / `<lst> += [x]` on (an alias of) the list `lst`."""
+    out = []
+    for n in walk_shallow(F.node):
+        if isinstance(n, ast.Call) and call_name(n) == "append" and isinstance(n.func, ast.Attribute) and isinstance(n.func.value, ast.Name) \
+                and len(n.args) == 1 and (n.func.value.id == lst.id or same_origin(ctx, F, n.func.value, lst)):
+            out.append((n, n.args[0]))
+        elif isinstance(n, ast.AugAssign) and isinstance(n.op, ast.Add) and isinstance(n.target, ast.Name) and n.target.id == lst.id \
+                and isinstance(n.value, ast.List) and len(n.value.elts) == 1:
+            out.append((n, n.value.elts[0]))
+    return sorted(out, key=lambda t: getattr(t[0], "_ord", 0))
+
+
 def r2_one_key_per_row(ctx, rid):
     gs = _func(ctx, "grid_search")
     rd = ctx.rd(gs)
     cfg = ctx.cfg(gs)
     loop, up = _row_loop(ctx, gs, rid)
-    cd = {k.arg: k.value for k in up.keywords}.get("circuits")
-    ctx.require(isinstance(cd, ast.Dict) and len(cd.keys) == 1 and cd.keys[0] is not None,
-                f"{rid}: `{norm(up)}` does not add exactly one `{{key: circuit}}` entry (unrecognised form)")
-    key = cd.keys[0]
-    it = loop.iter
-    if not (isinstance(it, ast.Attribute) and it.attr == "index" and isinstance(it.value, ast.Name)):
-        raise AnalysisError(f"{rid}: the row loop iterates `{norm(it)}`, not `<table>.index` (unrecognised form)")
-    loop_table = it.value
+    key, _ = _row_entry(ctx, gs, up, rid)
+    loop_table = _row_table(ctx, gs, loop, rid)
+    if loop_table is None:
+        raise AnalysisError(f"{rid}: the row loop iterates `{norm(loop.iter)}`, not `<table>.index` (unrecognised form)")
 
-    def same_defs(a: ast.Name, b: ast.Name) -> bool:
-        return a.id == b.id and {id(d) for d in rd.defs_reaching(a)} == {id(d) for d in rd.defs_reaching(b)}
     idx_assigns = [st for st in walk_shallow(gs.node) if isinstance(st, ast.Assign) and len(st.targets) == 1
                    and isinstance(st.targets[0], ast.Attribute) and st.targets[0].attr == "index"]
     ctx.require(len(idx_assigns) <= 1, f"{rid}: several assignments to an `.index` in grid_search (unrecognised form)")
     ia = idx_assigns[0] if idx_assigns else None
     if ia is not None:
         ctx.require(isinstance(ia.value, ast.Name) and isinstance(ia.targets[0].value, ast.Name), f"{rid}: unrecognised form of `{norm(ia)}`")
-        list_name = ia.value.id
+        lst = ia.value
     else:
-        cands = {c.func.value.id for c in _calls(gs, "append") if isinstance(c.func.value, ast.Name) and contains(loop, c)
-                 and block_of(stmt_of(cfg, c)) is loop.body}
+        cands = {}
+        for c in _calls(gs, "append"):
+            if isinstance(c.func.value, ast.Name) and contains(loop, c) and block_of(stmt_of(cfg, c)) is loop.body:
+                cands.setdefault(c.func.value.id, c.func.value)
         ctx.require(len(cands) == 1, f"{rid}: cannot identify the list of row labels in grid_search (candidates {sorted(cands)})")
-        list_name = next(iter(cands))
-    apps = [c for c in _calls(gs, "append") if isinstance(c.func.value, ast.Name) and c.func.value.id == list_name]
-    ctx.require(apps, f"{rid}: nothing is appended to `{list_name}`")
+        lst = next(iter(cands.values()))
+    apps = _appends_to(ctx, gs, lst)
+    ctx.require(apps, f"{rid}: nothing is appended to `{lst.id}`")
     # (a) same value, same iteration
     up_st = stmt_of(cfg, up)
-    for ap in apps:
+    for ap, arg in apps:
         ap_st = stmt_of(cfg, ap)
         same_iter = contains(loop, ap) and block_of(ap_st) is loop.body and block_of(up_st) is loop.body
-        if len(ap.args) == 1 and same_value(ctx, gs, ap.args[0], key) and same_iter:
+        if same_value(ctx, gs, arg, key) and same_iter:
             ctx.ok(rid, gs, ap_st, "the label recorded for the row is the key its sub-circuit is stored under (same value, same iteration)",
                    {"key": norm(key)}, label="label == sub-circuit key")
         elif not same_iter:
             ctx.violation(rid, gs, ap_st, "label and sub-circuit are not recorded once per iteration of the row loop (conditional or misplaced): "
                                           "labels and circuits drift apart", label="label == sub-circuit key")
         else:
-            ctx.violation(rid, gs, ap_st, f"the row is labelled `{norm(ap.args[0]) if ap.args else '?'}` but its sub-circuit is stored under "
+            ctx.violation(rid, gs, ap_st, f"the row is labelled `{norm(arg)}` but its sub-circuit is stored under "
                                           f"`{norm(key)}`: the returned table maps a result column to another row's parameter values",
                           label="label == sub-circuit key")
     # (b) unique: contains the loop variable
     loopvars = set(target_names(loop.target))
-    kr = resolve_local(ctx, gs, key)
-    dep = {n.id for n in ast.walk(kr) if isinstance(n, ast.Name) and n.id in loopvars and any(d is loop for d in rd.defs_reaching(n))}
-    kst = stmt_of(cfg, kr) or up_st
+    kr = expand(ctx, gs, key)
+    dep = {n.id for n in ast.walk(kr) if isinstance(n, ast.Name) and n.id in loopvars and comp_generator_of(n) is None
+           and any(d is loop for d in rd.defs_reaching(n))}
+    kst = stmt_of(cfg, resolve(ctx, gs, key)) or up_st
     if dep:
         ctx.ok(rid, gs, kst, "the key contains the row label, so every row has its own key", {"key": norm(kr)}, label="key is unique per row")
     else:
@@ -250,19 +1189,21 @@ def r2_one_key_per_row(ctx, rid):
         labelled = None
     else:
         labelled = ia.targets[0].value
-        src = resolve_local(ctx, gs, labelled)
+        src = resolve(ctx, gs, labelled)
         is_copy = isinstance(src, ast.Call) and ((call_name(src) == "copy" and isinstance(src.func, ast.Attribute) and isinstance(src.func.value, ast.Name)
-                                                  and src.func.value.id == loop_table.id)
+                                                  and same_origin(ctx, gs, src.func.value, loop_table))
                                                  or (call_name(src) == "deepcopy" and src.args and isinstance(src.args[0], ast.Name)
-                                                     and src.args[0].id == loop_table.id))
-        if same_defs(labelled, loop_table) or is_copy:
+                                                     and same_origin(ctx, gs, src.args[0], loop_table)))
+        if same_origin(ctx, gs, labelled, loop_table) or is_copy:
             ctx.ok(rid, gs, loop, "rows are visited in the order of the table that receives the labels", label="row order")
         else:
-            ctx.violation(rid, gs, loop, f"the loop runs over `{norm(it)}` but the labels are assigned to `{labelled.id}.index`: label i would "
+            ctx.violation(rid, gs, loop, f"the loop runs over `{norm(loop.iter)}` but the labels are assigned to `{labelled.id}.index`: label i would "
                                          f"not belong to row i", label="row order")
         after = not contains(loop, ia) and cfg.dominates(loop, ia)
-        fresh = [assigned_value(d, list_name) if not isinstance(d, ast.arguments) else None for d in rd.defs_reaching(ia.value)]
-        fresh_ok = len(fresh) == 1 and isinstance(fresh[0], ast.List) and not fresh[0].elts
+        fresh = [v for _, v, _ in terminal_defs(ctx, gs, ia.value)]
+        fresh_ok = len(fresh) == 1 and ((isinstance(fresh[0], ast.List) and not fresh[0].elts)
+                                        or (isinstance(fresh[0], ast.Call) and isinstance(fresh[0].func, ast.Name) and fresh[0].func.id == "list"
+                                            and not fresh[0].args))
         if after and fresh_ok:
             ctx.ok(rid, gs, ia, "after the loop the table's index becomes exactly the list of recorded keys", label="parameter table index")
         else:
@@ -270,7 +1211,7 @@ def r2_one_key_per_row(ctx, rid):
     # (e) the labelled table is returned
     rets = [n for n in walk_shallow(gs.node) if isinstance(n, ast.Return)]
     ok_ret = ia is not None and len(rets) == 1 and isinstance(rets[0].value, ast.Tuple) and len(rets[0].value.elts) == 2 \
-        and isinstance(rets[0].value.elts[1], ast.Name) and same_defs(rets[0].value.elts[1], labelled) and cfg.dominates(ia, rets[0])
+        and isinstance(rets[0].value.elts[1], ast.Name) and same_origin(ctx, gs, rets[0].value.elts[1], labelled) and cfg.dominates(ia, rets[0])
     if ok_ret:
         ctx.ok(rid, gs, rets[0], "the re-indexed parameter table is what grid_search returns", label="returned table")
     else:
@@ -282,41 +1223,130 @@ def r2_one_key_per_row(ctx, rid):
 # R3 — row values reach what the parameter map addresses
 # --------------------------------------------------------------------------------------------
 
-def _for_over(ctx, f, name: ast.Name):
-    b = binding_loop(ctx, f, name)
-    return b
+class _Sink:
+    """Obligations of one rule part evaluated on several case-split copies of a function: one obligation per label, a violation in
+    any case wins."""
+
+    def __init__(self):
+        self.items: Dict[str, tuple] = {}
+        self.order: List[str] = []
+
+    def add(self, status, node, msg, label, facts=None, nontrivial=True):
+        if label not in self.items:
+            self.order.append(label)
+            self.items[label] = (status, node, msg, facts, nontrivial)
+        elif status == "violation" and self.items[label][0] != "violation":
+            self.items[label] = (status, node, msg, facts, nontrivial)
+
+    def ok(self, node, msg, label, facts=None, nontrivial=True):
+        self.add("ok", node, msg, label, facts, nontrivial)
+
+    def violation(self, node, msg, label, facts=None):
+        self.add("violation", node, msg, label, facts)
+
+    def flush(self, ctx, rid, F):
+        for label in self.order:
+            status, node, msg, facts, nontrivial = self.items[label]
+            if status == "ok":
+                ctx.ok(rid, F, node, msg, facts, label=label, nontrivial=nontrivial)
+            else:
+                ctx.violation(rid, F, node, msg, facts, label=label)
 
 
-def r3_values_reach_targets(ctx, rid):
-    gs = _func(ctx, "grid_search")
-    ac = _func(ctx, "adapt_circuit")
+def _path_parts(e):
+    """['all/', <expr>] for f"all/{x}" / "all/" + x / "/".join((a, b)): literal text and expressions in order, or None."""
+    if isinstance(e, ast.JoinedStr):
+        out = []
+        for v in e.values:
+            if isinstance(v, ast.Constant) and isinstance(v.value, str):
+                out.append(v.value)
+            elif isinstance(v, ast.FormattedValue) and v.format_spec is None and v.conversion in (-1, 115):
+                out.append(v.value)
+            else:
+                return None
+        return _merge_text(out)
+    if isinstance(e, ast.Constant) and isinstance(e.value, str):
+        return [e.value]
+    if isinstance(e, ast.BinOp) and isinstance(e.op, ast.Add):
+        l, r = _path_parts(e.left), _path_parts(e.right)
+        if l is None:
+            l = [e.left] if isinstance(e.left, ast.Name) else None
+        if r is None:
+            r = [e.right] if isinstance(e.right, ast.Name) else None
+        return _merge_text(l + r) if l is not None and r is not None else None
+    if isinstance(e, ast.Call) and isinstance(e.func, ast.Attribute) and e.func.attr == "join" and isinstance(e.func.value, ast.Constant) \
+            and isinstance(e.func.value.value, str) and len(e.args) == 1 and isinstance(e.args[0], (ast.Tuple, ast.List)) and not e.keywords:
+        out = []
+        for i, x in enumerate(e.args[0].elts):
+            if i:
+                out.append(e.func.value.value)
+            out.append(x.value if isinstance(x, ast.Constant) and isinstance(x.value, str) else x)
+        return _merge_text(out)
+    return None
+
+
+def _merge_text(parts):
+    out = []
+    for p in parts:
+        if isinstance(p, str) and out and isinstance(out[-1], str):
+            out[-1] += p
+        elif p != "":
+            out.append(p)
+    return out
+
+
+def _dict_entries(ctx, F, name: ast.Name, within, rid):
+    """[(statement, key expr, value expr)] of everything stored into the dict behind `name` (its definitions as literal /
+    comprehension, later `d[k] = v` stores) inside `within`."""
+    out = []
+    for d, v, nm in terminal_defs(ctx, F, name):
+        if isinstance(d, ast.arguments):
+            continue
+        if isinstance(v, ast.DictComp):
+            out.append((d, v.key, v.value))
+        elif isinstance(v, ast.Dict):
+            for k, x in zip(v.keys, v.values):
+                if k is None:
+                    raise AnalysisError(f"{rid}: `{norm(d)}` merges another dict (unrecognised form)")
+                out.append((d, k, x))
+        elif isinstance(v, ast.Call) and isinstance(v.func, ast.Name) and v.func.id == "dict" and not v.args and not v.keywords:
+            pass
+        else:
+            raise AnalysisError(f"{rid}: `{nm}` is built by `{norm(d)}` (unrecognised form)")
+    for st in walk_shallow(F.node):
+        if isinstance(st, ast.Assign) and len(st.targets) == 1 and isinstance(st.targets[0], ast.Subscript) and isinstance(st.targets[0].value, ast.Name) \
+                and (st.targets[0].value.id == name.id or same_origin(ctx, F, st.targets[0].value, name)) and (within is None or contains(within, st)):
+            out.append((st, st.targets[0].slice, st.value))
+    return sorted(out, key=lambda t: getattr(t[0], "_ord", 0))
+
+
+def _r3_row_values(ctx, rid, gs, ac):
     loop, up = _row_loop(ctx, gs, rid)
     rd = ctx.rd(gs)
     acalls = [c for c in _calls(gs, "adapt_circuit") if contains(loop, c)]
     ctx.require(len(acalls) == 1, f"{rid}: expected one adapt_circuit call in the row loop")
-    bound = dict(zip(ac.params, acalls[0].args))
-    bound.update({k.arg: k.value for k in acalls[0].keywords})
-    P = bound.get(ac.params[1])
+    bound = _bind_call(ac.orig, acalls[0])
+    P = bound.get(ac.orig.params[1])
     ctx.require(isinstance(P, ast.Name), f"{rid}: the row parameters handed to adapt_circuit are not a plain name (unrecognised form)")
-    stores = [st for st in walk_shallow(gs.node) if isinstance(st, ast.Assign) and len(st.targets) == 1 and isinstance(st.targets[0], ast.Subscript)
-              and isinstance(st.targets[0].value, ast.Name) and st.targets[0].value.id == P.id and contains(loop, st)]
+    stores = [s for s in _dict_entries(ctx, gs, P, loop, rid) if contains(loop, s[0])]
     ctx.require(stores, f"{rid}: nothing is stored into `{P.id}` inside the row loop")
     rowvars = set(target_names(loop.target))
-    for st in stores:
-        k = st.targets[0].slice
-        v = st.value
-        col = row = None
-        tbl = None
+    loop_table = _row_table(ctx, gs, loop, rid)
+    for st, k, v in stores:
+        col = row = tbl = None
         if isinstance(v, ast.Subscript) and isinstance(v.value, ast.Subscript) and isinstance(v.value.value, ast.Name):
             tbl, col, row = v.value.value, v.value.slice, v.slice            # table[col][row]
         elif isinstance(v, ast.Subscript) and isinstance(v.value, ast.Attribute) and v.value.attr in ("loc", "at") \
                 and isinstance(v.value.value, ast.Name) and isinstance(v.slice, ast.Tuple) and len(v.slice.elts) == 2:
             tbl, row, col = v.value.value, v.slice.elts[0], v.slice.elts[1]  # table.loc[row, col]
+        elif isinstance(v, ast.Subscript) and isinstance(v.value, ast.Subscript) and isinstance(v.value.value, ast.Attribute) \
+                and v.value.value.attr == "loc" and isinstance(v.value.value.value, ast.Name):
+            tbl, row, col = v.value.value.value, v.value.slice, v.slice      # table.loc[row][col]
         if tbl is None:
             raise AnalysisError(f"{rid}: `{norm(st)}` does not read `<table>[<key>][<row>]` (unrecognised form)")
-        table_ok = isinstance(loop.iter, ast.Attribute) and isinstance(loop.iter.value, ast.Name) and loop.iter.value.id == tbl.id
+        table_ok = loop_table is not None and same_origin(ctx, gs, loop_table, tbl)
         col_ok = same_value(ctx, gs, col, k)
-        row_ok = isinstance(row, ast.Name) and row.id in rowvars and any(d is loop for d in rd.defs_reaching(row))
+        row_ok = isinstance(row, ast.Name) and row.id in rowvars and comp_generator_of(row) is None and any(d is loop for d in rd.defs_reaching(row))
         if table_ok and col_ok and row_ok:
             ctx.ok(rid, gs, st, "the row's parameter dict gets, under each key, the table value of that key in that row", label="row values")
         else:
@@ -324,208 +1354,434 @@ def r3_values_reach_targets(ctx, rid):
                                        f"(column matches: {col_ok}, row is the loop's row label: {row_ok}, same table: {table_ok}): the row would "
                                        f"be simulated with another row's or another parameter's value", label="row values")
 
-    # ---- adapt_circuit
-    rda = ctx.rd(ac)
-    p_params, p_map = ac.params[1], ac.params[2]
-    outer = [st for st in ac.node.body if isinstance(st, ast.For)]
-    ctx.require(len(outer) == 1, f"{rid}: adapt_circuit no longer has one top-level loop over the parameters")
-    oloop = outer[0]
-    it = oloop.iter
-    base = it.func.value if isinstance(it, ast.Call) and call_name(it) in ("keys", "items") and isinstance(it.func, ast.Attribute) else it
-    ctx.require(_unmodified_param(ctx, ac, base, p_params), f"{rid}: adapt_circuit's loop iterates `{norm(it)}`, not the parameter dict (unrecognised form)")
-    if isinstance(oloop.target, ast.Name):
-        keyname = oloop.target.id
-    elif isinstance(oloop.target, ast.Tuple) and isinstance(oloop.target.elts[0], ast.Name) and call_name(it) == "items":
-        keyname = oloop.target.elts[0].id
-    else:
-        raise AnalysisError(f"{rid}: unrecognised target of adapt_circuit's parameter loop: {norm(oloop)}")
 
-    def is_key(e):
-        return isinstance(e, ast.Name) and e.id == keyname and any(d is oloop for d in rda.defs_reaching(e)) and len(rda.defs_reaching(e)) == 1
+class _AdaptCase:
+    """The record building of adapt_circuit on one case-split copy V of the function."""
 
-    def is_val(e):
-        """the value of params[key] for the loop's key"""
+    def __init__(self, ctx, rid, V, sink):
+        self.ctx, self.rid, self.V, self.sink = ctx, rid, V, sink
+        ps = V.orig.params
+        self.p_params, self.p_map = ps[1], ps[2]
+        self.key_binder = None
+
+    # -- roles
+    def is_key(self, e) -> bool:
+        """`e` is the key of the current iteration of the loop over the parameters (or over the parameter map)."""
         if not isinstance(e, ast.Name):
             return False
-        if isinstance(oloop.target, ast.Tuple) and e.id in target_names(oloop.target.elts[1]):
-            return any(d is oloop for d in rda.defs_reaching(e))
-        r = resolve_local(ctx, ac, e)
-        return isinstance(r, ast.Subscript) and _unmodified_param(ctx, ac, r.value, p_params) and is_key(r.slice)
+        el = elem_of(self.ctx, self.V, e)
+        if el is None or el.path or el.kind not in ("key", "elem") or not isinstance(el.container, ast.Name):
+            return False
+        if not (is_param(self.ctx, self.V, el.container, self.p_params) or is_param(self.ctx, self.V, el.container, self.p_map)):
+            return False
+        if self.key_binder is None:
+            self.key_binder = el.binder
+        return el.binder is self.key_binder
 
-    map_subs = [s for s in walk_shallow(ac.node) if isinstance(s, ast.Subscript) and isinstance(s.value, ast.Name) and s.value.id == p_map
-                and contains(oloop, s)]
-    ctx.require(map_subs, f"{rid}: adapt_circuit never reads the parameter map inside its loop")
-    bad = [s for s in map_subs if not is_key(s.slice)]
-    if bad:
-        ctx.violation(rid, ac, stmt_of(ctx.cfg(ac), bad[0]), f"`{norm(bad[0])}` reads the parameter map under another key than the one whose value "
-                                                             f"is applied: a value would be written to another parameter's targets", label="map entry of the same key")
-    else:
-        ctx.ok(rid, ac, oloop, f"all {len(map_subs)} reads of the parameter map use the key whose value is applied", label="map entry of the same key")
+    def is_val(self, e) -> bool:
+        """the value params[key] of the current key"""
+        x = expand(self.ctx, self.V, e)
+        if isinstance(x, ast.Name):
+            el = elem_of(self.ctx, self.V, x)
+            return el is not None and el.kind == "value" and not el.path and isinstance(el.container, ast.Name) \
+                and is_param(self.ctx, self.V, el.container, self.p_params) and (self.key_binder is None or el.binder is self.key_binder)
+        if isinstance(x, ast.Subscript):
+            return is_param(self.ctx, self.V, x.value, self.p_params) and self.is_key(x.slice)
+        if isinstance(x, ast.Call) and call_name(x) == "get" and isinstance(x.func, ast.Attribute) and len(x.args) == 1 and not x.keywords:
+            return is_param(self.ctx, self.V, x.func.value, self.p_params) and self.is_key(x.args[0])
+        return False
 
-    def from_map_list(e, field):
-        """e is a loop variable over param_map[key][field] (directly or through a local alias)."""
+    def is_mapping(self, e) -> bool:
+        """param_map[key] of the current key"""
+        x = expand(self.ctx, self.V, e)
+        if isinstance(x, ast.Name):
+            el = elem_of(self.ctx, self.V, x)
+            return el is not None and el.kind == "value" and not el.path and isinstance(el.container, ast.Name) \
+                and is_param(self.ctx, self.V, el.container, self.p_map) and (self.key_binder is None or el.binder is self.key_binder)
+        if isinstance(x, ast.Subscript):
+            return is_param(self.ctx, self.V, x.value, self.p_map) and self.is_key(x.slice)
+        return False
+
+    def is_map_field(self, e, field) -> bool:
+        x = expand(self.ctx, self.V, e)
+        return isinstance(x, ast.Subscript) and isinstance(x.slice, ast.Constant) and x.slice.value == field and self.is_mapping(x.value)
+
+    def from_map_list(self, e, field) -> Optional[Elem]:
+        """`e` is the loop variable of a loop over param_map[key][field]"""
         if not isinstance(e, ast.Name):
             return None
-        b = binding_loop(ctx, ac, e)
-        if b is None:
+        el = elem_of(self.ctx, self.V, e)
+        if el is None or el.kind != "elem" or el.path or el.container is None or not self.is_map_field(el.container, field):
             return None
-        src = resolve_local(ctx, ac, b[1])
-        ok = isinstance(src, ast.Subscript) and isinstance(src.slice, ast.Constant) and src.slice.value == field \
-            and isinstance(src.value, ast.Subscript) and isinstance(src.value.value, ast.Name) and src.value.value.id == p_map and is_key(src.value.slice)
-        return b if ok else None
+        return el
 
-    # node records
-    uv = _calls(ac, "update_var")
-    ctx.require(len(uv) == 1, f"{rid}: expected one update_var call in adapt_circuit")
-    ukw = {k.arg: k.value for k in uv[0].keywords}
-    ctx.require("node_vars" in ukw and "edge_vars" in ukw and isinstance(ukw["node_vars"], ast.Name) and isinstance(ukw["edge_vars"], ast.Name),
-                f"{rid}: `{norm(uv[0])}` does not pass node_vars= and edge_vars= by name (unrecognised form)")
-    nname, ename = ukw["node_vars"].id, ukw["edge_vars"].id
-    nstores = [st for st in walk_shallow(ac.node) if isinstance(st, ast.Assign) and len(st.targets) == 1 and isinstance(st.targets[0], ast.Subscript)
-               and isinstance(st.targets[0].value, ast.Name) and st.targets[0].value.id == nname]
-    ctx.require(nstores, f"{rid}: adapt_circuit never fills `{nname}`")
-    for st in nstores:
-        k = st.targets[0].slice
-        good = isinstance(k, ast.JoinedStr) and fstring_template(k) is not None and re.fullmatch(r"⟨[^⟩]*⟩/⟨[^⟩]*⟩", fstring_template(k)) is not None
-        if good:
-            h = [v.value for v in k.values if isinstance(v, ast.FormattedValue)]
-            good = from_map_list(h[0], "nodes") is not None and from_map_list(h[1], "vars") is not None and is_val(st.value)
-        if good:
-            ctx.ok(rid, ac, st, "a node record is `<node>/<var>` of the key's own node and variable lists and carries the key's value",
-                   label=f"node record {norm(st)}")
+    # -- the collections handed to update_var
+    def collect(self, root, kind):
+        """(records, fresh): what is put into the dict (kind 'dict': (stmt, key, value)) / list (kind 'list': (stmt, record)) behind
+        `root`, through literals, stores, append / extend / update of local collections that end up in it."""
+        ctx, V, rid = self.ctx, self.V, self.rid
+        names: Dict[str, ast.Name] = {}
+        records, fresh = [], True
+        work = [root]
+
+        def literal(d, v):
+            nonlocal fresh
+            if kind == "dict":
+                if isinstance(v, ast.Dict):
+                    for k, x in zip(v.keys, v.values):
+                        if k is None:
+                            work.append(x)
+                        else:
+                            records.append((d, k, x))
+                    return True
+                if isinstance(v, ast.DictComp):
+                    records.append((d, v.key, v.value))
+                    return True
+                if isinstance(v, ast.Call) and isinstance(v.func, ast.Name) and v.func.id == "dict" and not v.args and not v.keywords:
+                    return True
+                if isinstance(v, ast.BinOp) and isinstance(v.op, ast.BitOr):
+                    work.extend([v.left, v.right])
+                    return True
+            else:
+                if isinstance(v, (ast.List, ast.Tuple)):
+                    for x in v.elts:
+                        if isinstance(x, ast.Starred):
+                            work.append(x.value)
+                        else:
+                            records.append((d, x))
+                    return True
+                if isinstance(v, ast.ListComp) and len(v.generators) >= 1:
+                    records.append((d, v.elt))
+                    return True
+                if isinstance(v, ast.Call) and isinstance(v.func, ast.Name) and v.func.id == "list" and not v.args and not v.keywords:
+                    return True
+                if isinstance(v, ast.BinOp) and isinstance(v.op, ast.Add):
+                    work.extend([v.left, v.right])
+                    return True
+            return False
+        seen = set()
+        while work:
+            e = work.pop()
+            if isinstance(e, ast.Name):
+                for d, v, nm in terminal_defs(ctx, V, e):
+                    if id(d) in seen:
+                        continue
+                    seen.add(id(d))
+                    if isinstance(d, ast.arguments):
+                        fresh = False
+                    elif isinstance(d, ast.AugAssign):
+                        pass                                                     # handled with the mutations below
+                    elif v is None or not literal(d, v):
+                        raise AnalysisError(f"{rid}: the update collection `{nm}` is built by `{norm(d)}` (unrecognised form)")
+                    if nm not in names:
+                        names[nm] = e
+                        # mutations of this local collection
+                        for st in walk_shallow(V.node):
+                            if isinstance(st, ast.Assign) and len(st.targets) == 1 and isinstance(st.targets[0], ast.Subscript) \
+                                    and isinstance(st.targets[0].value, ast.Name) and st.targets[0].value.id == nm:
+                                if kind != "dict":
+                                    raise AnalysisError(f"{rid}: `{norm(st)}` stores into the record list by position (unrecognised form)")
+                                records.append((st, st.targets[0].slice, st.value))
+                            elif isinstance(st, ast.Call) and isinstance(st.func, ast.Attribute) and isinstance(st.func.value, ast.Name) \
+                                    and st.func.value.id == nm:
+                                m = st.func.attr
+                                if kind == "dict" and m == "update" and len(st.args) == 1 and not st.keywords:
+                                    work.append(st.args[0])
+                                elif kind == "dict" and m == "setdefault" and len(st.args) == 2:
+                                    records.append((st, st.args[0], st.args[1]))
+                                elif kind == "list" and m == "append" and len(st.args) == 1:
+                                    records.append((st, st.args[0]))
+                                elif kind == "list" and m == "extend" and len(st.args) == 1:
+                                    work.append(st.args[0])
+                                elif kind == "list" and m == "insert" and len(st.args) == 2:
+                                    records.append((st, st.args[1]))
+                                elif m in ("update", "setdefault", "append", "extend", "insert", "pop", "remove", "clear", "popitem", "sort", "reverse"):
+                                    raise AnalysisError(f"{rid}: `{norm(st)}` changes the update collection (unrecognised form)")
+                            elif isinstance(st, ast.AugAssign) and isinstance(st.target, ast.Name) and st.target.id == nm:
+                                if (kind == "list" and isinstance(st.op, ast.Add)) or (kind == "dict" and isinstance(st.op, ast.BitOr)):
+                                    work.append(st.value)
+                                else:
+                                    raise AnalysisError(f"{rid}: `{norm(st)}` changes the update collection (unrecognised form)")
+            elif isinstance(e, ast.Call) and isinstance(e.func, ast.Name) and e.func.id in ("list", "dict", "tuple") and len(e.args) == 1 and not e.keywords:
+                work.append(e.args[0])
+            elif not literal(stmt_of(ctx.cfg(V), e), e):
+                raise AnalysisError(f"{rid}: `{norm(e)}` is merged into the update collection (unrecognised form)")
+        key = (lambda t: getattr(t[0], "_ord", 0))
+        uniq, ids = [], set()
+        for r in sorted(records, key=key):
+            if id(r[-1]) not in ids:
+                ids.add(id(r[-1]))
+                uniq.append(r)
+        return uniq, fresh
+
+    def run(self):
+        ctx, rid, V, sink = self.ctx, self.rid, self.V, self.sink
+        cfg = ctx.cfg(V)
+        # reads of the parameter map use the key whose value is applied
+        reads = []
+        for s in ordered(walk_shallow(V.node)):
+            if isinstance(s, ast.Subscript) and isinstance(s.value, ast.Name) and isinstance(s.ctx, ast.Load) and is_param(ctx, V, s.value, self.p_map):
+                reads.append((s, s.slice))
+            elif isinstance(s, ast.Call) and isinstance(s.func, ast.Attribute) and s.func.attr == "get" and isinstance(s.func.value, ast.Name) \
+                    and is_param(ctx, V, s.func.value, self.p_map) and s.args:
+                reads.append((s, s.args[0]))
+        # (a loop over param_map.items() binds the key itself)
+        bad = [s for s, k in reads if not self.is_key(k)]
+        if bad:
+            k = bad[0].slice if isinstance(bad[0], ast.Subscript) else bad[0].args[0]
+            if isinstance(k, (ast.Name, ast.Constant, ast.Subscript)) or self.key_binder is None:
+                sink.violation(stmt_of(cfg, bad[0]), f"`{norm(bad[0])}` reads the parameter map under another key than the one whose value "
+                                                     f"is applied: a value would be written to another parameter's targets", "map entry of the same key")
+            else:
+                raise AnalysisError(f"{rid}: `{norm(bad[0])}` reads the parameter map under an unrecognised key")
+        uv = _calls(V, "update_var")
+        ctx.require(len(uv) == 1, f"{rid}: expected one update_var call in adapt_circuit")
+        upd = ctx.repo.get_func(CIRC, "CircuitTemplate.update_var")
+        ukw = _bind_call(upd, uv[0])
+        ctx.require("node_vars" in ukw and "edge_vars" in ukw, f"{rid}: `{norm(uv[0])}` does not pass node_vars and edge_vars (unrecognised form)")
+        nrecs, nfresh = self.collect(ukw["node_vars"], "dict")
+        erecs, efresh = self.collect(ukw["edge_vars"], "list")
+        ctx.require(nrecs, f"{rid}: adapt_circuit never fills `{norm(ukw['node_vars'])}`")
+        ctx.require(erecs, f"{rid}: adapt_circuit never fills `{norm(ukw['edge_vars'])}`")
+        # node records
+        for st, k, v in nrecs:
+            parts = _path_parts(expand(ctx, V, k))
+            if parts is None:
+                raise AnalysisError(f"{rid}: node record key `{norm(k)}` is not a `<node>/<var>` path (unrecognised form)")
+            good = len(parts) == 3 and parts[1] == "/" and not isinstance(parts[0], str) and not isinstance(parts[2], str) \
+                and self.from_map_list(parts[0], "nodes") is not None and self.from_map_list(parts[2], "vars") is not None and self.is_val(v)
+            stn = st if isinstance(st, ast.stmt) else stmt_of(cfg, st)
+            if good:
+                sink.ok(stn, "a node record is `<node>/<var>` of the key's own node and variable lists and carries the key's value",
+                        f"node record {norm(stn)}")
+            else:
+                sink.violation(stn, f"`{norm(stn)}` is not `<node of map[key]['nodes']>/<var of map[key]['vars']>` = params[key]: the value "
+                                    f"would reach another variable than the parameter map names", f"node record {norm(stn)}")
+        # edge records
+        for no, (st, rec0) in enumerate(erecs, 1):
+            rec = expand(ctx, V, rec0)
+            if not (isinstance(rec, ast.Tuple) and len(rec.elts) in (3, 4)):
+                raise AnalysisError(f"{rid}: edge record `{norm(rec0)}` is not a 3- or 4-tuple (unrecognised form)")
+            ap_st = st if isinstance(st, ast.stmt) else stmt_of(cfg, st)
+            why = []
+            ge = None
+            for i in (0, 1):
+                e = rec.elts[i]
+                if isinstance(e, ast.Subscript) and isinstance(e.slice, ast.Constant) and e.slice.value == i and isinstance(e.value, ast.Call) \
+                        and call_name(e.value) == "get_edge" and (ge is None or getattr(ge, "_src", ge) is getattr(e.value, "_src", e.value)):
+                    ge = e.value
+                    continue
+                why.append(f"element {i} is `{norm(e)}`, not element {i} of the edge that get_edge resolved")
+            d = rec.elts[2]
+            if not (isinstance(d, ast.Dict) and len(d.keys) == 1 and d.keys[0] is not None and self.from_map_list(d.keys[0], "vars") is not None
+                    and self.is_val(d.values[0])):
+                why.append(f"the attribute update `{norm(d)}` is not {{<var of map[key]['vars']>: params[key]}}")
+            variable_idx = False
+            if ge is not None:
+                gkw = dict(zip(("source", "target", "idx"), ge.args))
+                gkw.update({k.arg: k.value for k in ge.keywords})
+                roles = {}
+                eloop = None
+                for role, pos in (("source", 0), ("target", 1), ("idx", 2)):
+                    a = gkw.get(role)
+                    if a is None or (role == "idx" and isinstance(a, ast.Constant) and a.value in (0, None)):
+                        continue
+                    el = elem_of(ctx, V, a) if isinstance(a, ast.Name) else None
+                    if el is None or el.kind != "elem" or el.path != (pos,) or (eloop is not None and el.binder is not eloop.binder):
+                        why.append(f"get_edge's `{role}` is `{norm(a)}`, not element {pos} of the map's edge entry this record is built for")
+                    else:
+                        eloop = el
+                        roles[role] = a
+                if "source" not in roles or "target" not in roles:
+                    if not why:
+                        why.append("get_edge is not called with the source and target of the map's edge entry")
+                elif eloop is not None and not self.is_map_field(eloop.container, "edges"):
+                    why.append(f"the edge entries iterate `{norm(eloop.container)}`, not map[key]['edges']")
+                if "idx" in roles:
+                    variable_idx = True
+                    if not (len(rec.elts) == 4 and same_value(ctx, V, rec.elts[3], roles["idx"])):
+                        sink.violation(ap_st,
+                                       f"the edge is resolved with idx=`{norm(roles['idx'])}` but the record handed to update_var is `{norm(rec)}` and "
+                                       f"does not carry that index: update_var re-resolves (source, target) with its default index 0, so a sweep over "
+                                       f"the idx-th parallel edge silently changes edge 0 instead", "edge address idx reaches update_var")
+                        continue
+                    self.carries_idx = True
+                elif len(rec.elts) == 4 and not (isinstance(rec.elts[3], ast.Constant) and rec.elts[3].value in (0, None)):
+                    why.append(f"the record carries index `{norm(rec.elts[3])}` although the edge was resolved with index 0")
+            label = "edge address idx reaches update_var" if variable_idx else f"edge record {no} (index 0)"
+            if why:
+                sink.violation(ap_st, "edge update record is wrong: " + "; ".join(why), label)
+            else:
+                sink.ok(ap_st, "the record is (source, target) of the edge resolved for one map entry, {var: value of the key}"
+                        + (" and the entry's idx" if variable_idx else ""), label, {"record": norm(rec)})
+        if not bad:
+            n = len(reads) if reads else 0
+            kb = self.key_binder
+            ctx.require(kb is not None, f"{rid}: adapt_circuit has no loop over the parameters (unrecognised form)")
+            node = kb if isinstance(kb, ast.stmt) else stmt_of(cfg, kb)
+            sink.ok(node, f"all reads of the parameter map use the key whose value is applied", "map entry of the same key")
+        if nfresh and efresh:
+            sink.ok(uv[0], "update_var receives the node records and the edge records built above", "records handed to update_var", nontrivial=False)
         else:
-            ctx.violation(rid, ac, st, f"`{norm(st)}` is not `<node of map[key]['nodes']>/<var of map[key]['vars']>` = params[key]: the value "
-                                       f"would reach another variable than the parameter map names", label=f"node record {norm(st)}")
-    # edge records
-    eapps = [c for c in _calls(ac, "append") if isinstance(c.func.value, ast.Name) and c.func.value.id == ename]
-    ctx.require(eapps, f"{rid}: adapt_circuit never fills `{ename}`")
+            sink.violation(uv[0], "update_var does not receive the freshly built node/edge records", "records handed to update_var")
+
     carries_idx = False
-    for no, ap in enumerate(eapps, 1):
-        rec = ap.args[0] if ap.args else None
-        if not (isinstance(rec, ast.Tuple) and len(rec.elts) in (3, 4)):
-            raise AnalysisError(f"{rid}: edge record `{norm(ap)}` is not a 3- or 4-tuple (unrecognised form)")
-        ap_st = stmt_of(ctx.cfg(ac), ap)
-        why = []
-        # source / target = elements 0 / 1 of one get_edge result
-        ge = None
-        for i in (0, 1):
-            e = rec.elts[i]
-            if isinstance(e, ast.Subscript) and isinstance(e.slice, ast.Constant) and e.slice.value == i and isinstance(e.value, ast.Name):
-                g = resolve_local(ctx, ac, e.value)
-                if isinstance(g, ast.Call) and call_name(g) == "get_edge" and (ge is None or ge is g):
-                    ge = g
-                    continue
-            why.append(f"element {i} is `{norm(e)}`, not element {i} of the edge that get_edge resolved")
-        d = rec.elts[2]
-        if not (isinstance(d, ast.Dict) and len(d.keys) == 1 and d.keys[0] is not None and from_map_list(d.keys[0], "vars") is not None
-                and is_val(d.values[0])):
-            why.append(f"the attribute update `{norm(d)}` is not {{<var of map[key]['vars']>: params[key]}}")
-        variable_idx = False
-        if ge is not None:
-            gkw = dict(zip(("source", "target", "idx"), ge.args))
-            gkw.update({k.arg: k.value for k in ge.keywords})
-            roles = {}
-            eloop = None
-            for role, pos in (("source", 0), ("target", 1), ("idx", 2)):
-                a = gkw.get(role)
-                if a is None or (role == "idx" and isinstance(a, ast.Constant) and a.value in (0, None)):
-                    continue
-                b = binding_loop(ctx, ac, a) if isinstance(a, ast.Name) else None
-                if b is None or position_in_target(b[0], a.id) != pos or (eloop is not None and b[2] is not eloop):
-                    why.append(f"get_edge's `{role}` is `{norm(a)}`, not element {pos} of the map's edge entry this record is built for")
-                else:
-                    eloop = b[2]
-                    roles[role] = a
-            if "source" not in roles or "target" not in roles:
-                if not why:
-                    why.append("get_edge is not called with the source and target of the map's edge entry")
-            elif eloop is not None:
-                src = resolve_local(ctx, ac, eloop.iter)
-                if not (isinstance(src, ast.Subscript) and isinstance(src.slice, ast.Constant) and src.slice.value == "edges"
-                        and isinstance(src.value, ast.Subscript) and is_key(src.value.slice)):
-                    why.append(f"the edge entries iterate `{norm(eloop.iter)}`, not map[key]['edges']")
-            if "idx" in roles:
-                variable_idx = True
-                if len(rec.elts) == 4 and same_value(ctx, ac, rec.elts[3], roles["idx"]):
-                    carries_idx = True
-                else:
-                    ctx.violation(rid, ac, ap_st,
-                                  f"the edge is resolved with idx=`{norm(roles['idx'])}` but the record handed to update_var is `{norm(rec)}` and "
-                                  f"does not carry that index: update_var re-resolves (source, target) with its default index 0, so a sweep over "
-                                  f"the idx-th parallel edge silently changes edge 0 instead", label="edge address idx reaches update_var")
-                    continue
-            elif len(rec.elts) == 4 and not (isinstance(rec.elts[3], ast.Constant) and rec.elts[3].value in (0, None)):
-                why.append(f"the record carries index `{norm(rec.elts[3])}` although the edge was resolved with index 0")
-        label = "edge address idx reaches update_var" if variable_idx else f"edge record {no} (index 0)"
-        if why:
-            ctx.violation(rid, ac, ap_st, "edge update record is wrong: " + "; ".join(why), label=label)
-        else:
-            ctx.ok(rid, ac, ap_st, "the record is (source, target) of the edge resolved for one map entry, {var: value of the key}"
-                                   + (" and the entry's idx" if variable_idx else ""), {"record": norm(rec)}, label=label)
-    # update_var receives both collections
-    fresh_ok = True
-    for nm, kind in ((ukw["node_vars"], ast.Dict), (ukw["edge_vars"], ast.List)):
-        vals = [assigned_value(d, nm.id) for d in rda.defs_reaching(nm)]
-        fresh_ok = fresh_ok and len(vals) == 1 and isinstance(vals[0], kind)
-    if fresh_ok:
-        ctx.ok(rid, ac, uv[0], "update_var receives the node records and the edge records built above", label="records handed to update_var",
-               nontrivial=False)
-    else:
-        ctx.violation(rid, ac, uv[0], "update_var does not receive the freshly built node/edge records", label="records handed to update_var")
 
-    # ---- consumer: CircuitTemplate.update_var edge loop
-    upd = ctx.repo.get_func(CIRC, "CircuitTemplate.update_var")
+
+def _param_or_default(ctx, F, e, pname, depth=5) -> bool:
+    """`e` is the parameter `pname`, possibly replaced by an empty default when it is None / empty."""
+    if depth <= 0:
+        return False
+    if isinstance(e, ast.Name):
+        tds = terminal_defs(ctx, F, e)
+        if not tds:
+            return False
+        hit = False
+        for d, v, nm in tds:
+            if isinstance(d, ast.arguments):
+                if nm != pname:
+                    return False
+                hit = True
+            elif v is None:
+                return False
+            elif _is_empty_literal(v):
+                continue
+            elif _param_or_default(ctx, F, v, pname, depth - 1):
+                hit = True
+            else:
+                return False
+        return hit
+    if isinstance(e, ast.IfExp):
+        a, b = e.body, e.orelse
+        return (_is_empty_literal(a) and _param_or_default(ctx, F, b, pname, depth - 1)) or \
+               (_is_empty_literal(b) and _param_or_default(ctx, F, a, pname, depth - 1))
+    if isinstance(e, ast.BoolOp) and isinstance(e.op, ast.Or) and len(e.values) == 2:
+        return _is_empty_literal(e.values[1]) and _param_or_default(ctx, F, e.values[0], pname, depth - 1)
+    return False
+
+
+def _is_empty_literal(v) -> bool:
+    return (isinstance(v, (ast.List, ast.Tuple)) and not v.elts) or (isinstance(v, ast.Dict) and not v.keys) \
+        or (isinstance(v, ast.Call) and isinstance(v.func, ast.Name) and v.func.id in ("list", "dict", "tuple") and not v.args and not v.keywords)
+
+
+def _r3_consumer(ctx, rid, carries_idx):
+    """CircuitTemplate.update_var: every edge record (source, target, attrs[, idx]) is resolved with its own source, target and idx."""
+    U = syn(ctx, ctx.repo.get_func(CIRC, "CircuitTemplate.update_var"))
     ep = "edge_vars"
-    ctx.require(ep in upd.params, f"{rid}: CircuitTemplate.update_var lost its edge_vars parameter")
-    eloops = [st for st in walk_shallow(upd.node) if isinstance(st, ast.For) and isinstance(st.iter, ast.Name) and st.iter.id == ep]
-    ctx.require(len(eloops) == 1 and isinstance(eloops[0].target, ast.Tuple) and len(eloops[0].target.elts) >= 3,
-                f"{rid}: update_var's loop over edge_vars has an unrecognised form")
-    el = eloops[0]
-    telts = el.target.elts
-    rdu = ctx.rd(upd)
+    ctx.require(ep in U.params, f"{rid}: CircuitTemplate.update_var lost its edge_vars parameter")
+    rdu = ctx.rd(U)
 
-    def rec_pos(e):
-        """which element of the record does expression e denote?  0,1,2 direct; 3 = the optional index"""
-        if isinstance(e, ast.Name):
-            for i, t in enumerate(telts):
-                if isinstance(t, ast.Name) and t.id == e.id and any(d is el for d in rdu.defs_reaching(e)) and len(rdu.defs_reaching(e)) == 1:
-                    return i
-            r = resolve_local(ctx, upd, e)
-            if r is not e:
-                return rec_pos(r)
-        if isinstance(e, ast.IfExp) and isinstance(e.orelse, ast.Constant) and e.orelse.value in (0, None) and isinstance(e.test, ast.Name):
-            b = e.body
-            if isinstance(b, ast.Subscript) and isinstance(b.slice, ast.Constant) and b.slice.value == 0 and isinstance(b.value, ast.Name) \
-                    and b.value.id == e.test.id and len(telts) == 4 and isinstance(telts[3], ast.Starred) \
-                    and isinstance(telts[3].value, ast.Name) and telts[3].value.id == b.value.id:
-                return 3
+    def record_elem(el: Optional[Elem]) -> bool:
+        if el is None or el.kind != "elem" or el.container is None:
+            return False
+        return _param_or_default(ctx, U, el.container, ep) or _param_or_default(ctx, U, expand(ctx, U, el.container), ep)
+
+    def opt_index(v, depth=4):
+        """'idx' for `<rest>[0]` / `<record>[3]`, 'zero' for the default 0 / None, else None"""
+        if isinstance(v, ast.Constant) and v.value in (0, None) and not isinstance(v.value, bool):
+            return "zero"
+        if isinstance(v, ast.Subscript) and isinstance(v.slice, ast.Constant) and isinstance(v.value, ast.Name):
+            el = elem_of(ctx, U, v.value)
+            if record_elem(el):
+                if v.slice.value == 0 and el.path == (("*", 3),):
+                    return "idx"
+                if v.slice.value == 3 and el.path == ():
+                    return "idx"
         return None
-    ges = [c for c in _calls(upd, "get_edge") if contains(el, c)]
-    ctx.require(len(ges) == 1, f"{rid}: expected one get_edge call in update_var's edge loop, found {len(ges)}")
+
+    def rec_pos(e, depth=6):
+        """which element of the edge record does expression e denote?  0, 1, 2 direct; 3 = the optional index (default 0)"""
+        if depth <= 0 or e is None:
+            return None
+        if isinstance(e, ast.Name):
+            el = elem_of(ctx, U, e)
+            if record_elem(el):
+                if len(el.path) == 1 and isinstance(el.path[0], int):
+                    return el.path[0]
+                return None
+            if comp_generator_of(e) is not None:
+                return None
+            defs = rdu.defs_reaching(e)
+            vals = [None if isinstance(d, ast.arguments) else assigned_value(d, e.id) for d in defs]
+            if len(defs) == 1 and vals[0] is not None:
+                return rec_pos(vals[0], depth - 1)
+            if len(defs) >= 2 and all(v is not None for v in vals):
+                kinds = [opt_index(v) for v in vals]
+                if all(kinds) and "idx" in kinds and "zero" in kinds:
+                    return 3
+            return None
+        if isinstance(e, ast.IfExp):
+            kinds = {opt_index(e.body), opt_index(e.orelse)}
+            if kinds == {"idx", "zero"}:
+                return 3
+            return None
+        if isinstance(e, ast.Subscript) and isinstance(e.slice, ast.Constant) and e.slice.value == 0 and isinstance(e.value, ast.BoolOp) \
+                and isinstance(e.value.op, ast.Or) and len(e.value.values) == 2:
+            a, b = e.value.values                                               # (rest or [0])[0]
+            if isinstance(a, ast.Name) and isinstance(b, (ast.List, ast.Tuple)) and len(b.elts) == 1 \
+                    and opt_index(b.elts[0]) == "zero":
+                el = elem_of(ctx, U, a)
+                if record_elem(el) and el.path == (("*", 3),):
+                    return 3
+            return None
+        if isinstance(e, ast.Subscript) and isinstance(e.slice, ast.Constant) and isinstance(e.slice.value, int) and isinstance(e.value, ast.Name):
+            el = elem_of(ctx, U, e.value)
+            if record_elem(el) and el.path == () and e.slice.value in (0, 1, 2):
+                return e.slice.value
+        return None
+    ges = [c for c in _calls(U, "get_edge")]
+    ctx.require(len(ges) == 1, f"{rid}: expected one get_edge call in update_var, found {len(ges)}")
     g = ges[0]
     gkw = dict(zip(("source", "target", "idx"), g.args))
     gkw.update({k.arg: k.value for k in g.keywords})
-    st_ok = rec_pos(gkw.get("source")) == 0 and rec_pos(gkw.get("target")) == 1
-    idx_ok = "idx" in gkw and rec_pos(gkw["idx"]) == 3
-    if st_ok and idx_ok:
-        ctx.ok(rid, upd, g, "update_var resolves the edge with the record's source, target and index", label="update_var: get_edge uses the record's idx")
-    elif not st_ok:
-        ctx.violation(rid, upd, g, f"`{norm(g)}` does not resolve the edge by the record's (source, target)", label="update_var: get_edge uses the record's idx")
+    ps, pt = rec_pos(gkw.get("source")), rec_pos(gkw.get("target"))
+    label = "update_var: get_edge uses the record's idx"
+    if ps is None or pt is None:
+        raise AnalysisError(f"{rid}: `{norm(g)}`: cannot tell which elements of the edge record are used as source / target (unrecognised form)")
+    if (ps, pt) != (0, 1):
+        ctx.violation(rid, U, g, f"`{norm(g)}` does not resolve the edge by the record's (source, target)", label=label)
+    elif "idx" not in gkw or (isinstance(gkw["idx"], ast.Constant)):
+        ctx.violation(rid, U, g, f"`{norm(g)}` ignores the index of the edge record (default index 0): parameter updates addressed to the "
+                                 f"idx-th parallel edge between two variables change edge 0 instead"
+                                 + ("" if carries_idx else " (and adapt_circuit does not pass the index on)"), label=label)
     else:
-        ctx.violation(rid, upd, g, f"`{norm(g)}` ignores the index of the edge record (default index 0): parameter updates addressed to the "
-                                   f"idx-th parallel edge between two variables change edge 0 instead"
-                                   + ("" if carries_idx else " (and adapt_circuit does not pass the index on)"),
-                      label="update_var: get_edge uses the record's idx")
-    for st in walk_shallow(upd.node):
-        if isinstance(st, ast.Assign) and contains(el, st) and len(st.targets) == 1 and isinstance(st.targets[0], ast.Subscript) \
+        pi = rec_pos(gkw["idx"])
+        if pi == 3:
+            ctx.ok(rid, U, g, "update_var resolves the edge with the record's source, target and index", label=label)
+        elif pi is not None:
+            ctx.violation(rid, U, g, f"`{norm(g)}` resolves the edge with element {pi} of the record as its index, not with the record's own index",
+                          label=label)
+        else:
+            raise AnalysisError(f"{rid}: `{norm(g)}`: cannot tell where the index `{norm(gkw['idx'])}` comes from (unrecognised form)")
+    for st in ordered(walk_shallow(U.node)):
+        if isinstance(st, ast.Assign) and len(st.targets) == 1 and isinstance(st.targets[0], ast.Subscript) \
                 and isinstance(st.targets[0].value, ast.Attribute) and st.targets[0].value.attr == "_edge_map":
-            k = st.targets[0].slice
-            if isinstance(k, ast.Tuple) and len(k.elts) == 3 and rec_pos(k.elts[0]) == 0 and rec_pos(k.elts[1]) == 1 and rec_pos(k.elts[2]) == 3:
-                ctx.ok(rid, upd, st, "the updated edge is re-registered under the (source, target, idx) it was resolved with",
+            k = expand(ctx, U, st.targets[0].slice)
+            ctx.require(isinstance(k, ast.Tuple) and len(k.elts) == 3, f"{rid}: `{norm(st)}`: the edge map key is not a 3-tuple (unrecognised form)")
+            pos = [rec_pos(x) for x in st.targets[0].slice.elts] if isinstance(st.targets[0].slice, ast.Tuple) else [rec_pos(x) for x in k.elts]
+            if pos == [0, 1, 3]:
+                ctx.ok(rid, U, st, "the updated edge is re-registered under the (source, target, idx) it was resolved with",
                        label="update_var: edge map key")
+            elif pos[0] is None or pos[1] is None or (pos[2] is None and not isinstance(k.elts[2], ast.Constant)):
+                raise AnalysisError(f"{rid}: `{norm(st)}`: cannot tell which elements of the edge record form the key (unrecognised form)")
             else:
-                ctx.violation(rid, upd, st, f"the updated edge is re-registered under `{norm(k)}`, not under the (source, target, idx) it was "
-                                            f"resolved with: the edge map and the edge list disagree afterwards", label="update_var: edge map key")
+                ctx.violation(rid, U, st, f"the updated edge is re-registered under `{norm(st.targets[0].slice)}`, not under the (source, target, idx) it was "
+                                          f"resolved with: the edge map and the edge list disagree afterwards", label="update_var: edge map key")
+
+
+def r3_values_reach_targets(ctx, rid):
+    gs = _func(ctx, "grid_search")
+    ac = _func(ctx, "adapt_circuit")
+    _r3_row_values(ctx, rid, gs, ac)
+    sink = _Sink()
+    carries = False
+    for V in variants(ctx, ac):
+        case = _AdaptCase(ctx, rid, V, sink)
+        case.run()
+        carries = carries or case.carries_idx
+    sink.flush(ctx, rid, ac)
+    _r3_consumer(ctx, rid, carries)
 
 
 # --------------------------------------------------------------------------------------------
@@ -535,64 +1791,66 @@ def r3_values_reach_targets(ctx, rid):
 def r4_all_prefix_and_run(ctx, rid):
     gs = _func(ctx, "grid_search")
     rd = ctx.rd(gs)
+    cfg = ctx.cfg(gs)
     run = _the_run_call(ctx, gs, rid)
     kw = {k.arg: k.value for k in run.keywords}
     for role in ("outputs", "inputs"):
         ctx.require(role in kw and isinstance(kw[role], ast.Name), f"{rid}: run() does not receive {role}= by name (unrecognised form)")
+        ctx.require(role in gs.params, f"{rid}: grid_search lost its `{role}` parameter")
         nm = kw[role]
-        stores = [(st, st.targets[0].slice, st.value) for st in ordered(walk_shallow(gs.node))
-                  if isinstance(st, ast.Assign) and len(st.targets) == 1 and isinstance(st.targets[0], ast.Subscript)
-                  and isinstance(st.targets[0].value, ast.Name) and st.targets[0].value.id == nm.id]
-        for d in rd.defs_reaching(nm):
-            dv = assigned_value(d, nm.id) if not isinstance(d, ast.arguments) else None
-            if isinstance(dv, ast.DictComp):
-                stores.append((d, dv.key, dv.value))
+        stores = _dict_entries(ctx, gs, nm, None, rid)
         if not stores:
             ctx.violation(rid, gs, run, f"the {role} handed to run() are never re-addressed to the sub-circuits (`all/<path>`): a path of the "
                                         f"single circuit does not exist in the combined circuit", label=f"{role}: all/ prefix")
             continue
+        in_place = is_param(ctx, gs, nm, role) or any(isinstance(d, ast.arguments) for d, _, _ in terminal_defs(ctx, gs, nm))
         for st, k, v in stores:
             path = v if role == "outputs" else k
             other = k if role == "outputs" else v
-            good = isinstance(path, ast.JoinedStr) and fstring_template(path) is not None \
-                and re.fullmatch(r"all/⟨[^⟩]*⟩", fstring_template(path)) is not None
+            parts = _path_parts(expand(ctx, gs, path))
+            if parts is None:
+                raise AnalysisError(f"{rid}: `{norm(path)}` in `{norm(st)}` is not a recognised way of building a path (unrecognised form)")
+            good = len(parts) == 2 and parts[0] == "all/" and isinstance(parts[1], ast.Name)
             why = "" if good else f"`{norm(path)}` is not `all/<original path>`"
             if good:
-                hole = [x.value for x in path.values if isinstance(x, ast.FormattedValue)][0]
-                hb = binding_loop(ctx, gs, hole) if isinstance(hole, ast.Name) else None
-                ob = binding_loop(ctx, gs, other) if isinstance(other, ast.Name) else None
-                src_ok = False
-                if hb is not None and ob is not None and hb[2] is ob[2] and isinstance(hb[1], ast.Call) and call_name(hb[1]) == "items":
-                    want_hole, want_other = (1, 0) if role == "outputs" else (0, 1)
-                    recv = hb[1].func.value
-                    if isinstance(recv, ast.Call) and call_name(recv) == "copy":
-                        recv = recv.func.value
-                    orig = role if role in gs.params else None
-                    src_ok = position_in_target(hb[0], hole.id) == want_hole and position_in_target(ob[0], other.id) == want_other \
-                        and isinstance(recv, ast.Name) and recv.id == orig
-                    if role == "inputs" and src_ok:
-                        # iterating while storing into the same dict requires a copy
-                        src_ok = isinstance(hb[1].func.value, ast.Call) and call_name(hb[1].func.value) == "copy"
-                        why = "" if src_ok else "the dict is modified while it is iterated (no copy)"
+                hole = parts[1]
+                he = elem_of(ctx, gs, hole)
+                oe = elem_of(ctx, gs, other) if isinstance(other, ast.Name) else None
+                if he is None or oe is None:
+                    if isinstance(other, ast.Subscript) and he is not None and he.kind in ("key", "elem") and role == "inputs" \
+                            and isinstance(he.container, ast.Name) and is_param(ctx, gs, he.container, role) \
+                            and isinstance(other.value, ast.Name) and is_param(ctx, gs, other.value, role) and same_value(ctx, gs, other.slice, hole):
+                        oe = Elem(he.container, he.binder, (), "value", he.snapshot)         # inputs[f"all/{k}"] = inputs[k]
+                    else:
+                        raise AnalysisError(f"{rid}: cannot tell where `{norm(hole)}` / `{norm(other)}` in `{norm(st)}` come from (unrecognised form)")
+                want_hole, want_other = ("value", "key") if role == "outputs" else ("key", "value")
+                src_ok = he.binder is oe.binder and he.kind == want_hole and oe.kind == want_other and not he.path and not oe.path \
+                    and isinstance(he.container, ast.Name) and is_param(ctx, gs, he.container, role) \
+                    and isinstance(oe.container, ast.Name) and is_param(ctx, gs, oe.container, role)
+                if src_ok and role == "inputs" and in_place and not (he.snapshot and oe.snapshot):
+                    # iterating while storing into the same dict requires a snapshot of the items
+                    src_ok = False
+                    why = "the dict is modified while it is iterated (no copy)"
                 if not src_ok:
                     good = False
                     why = why or (f"key and path do not come from one `{role}.items()` pair of the caller's {role}")
+            stn = st if isinstance(st, ast.stmt) else stmt_of(cfg, st)
             if good:
-                ctx.ok(rid, gs, st, f"every requested {role[:-1]} is re-addressed to all sub-circuits under "
-                                    f"{'its own key' if role == 'outputs' else 'its own array'}", {"path": norm(path)}, label=f"{role}: all/ prefix")
+                ctx.ok(rid, gs, stn, f"every requested {role[:-1]} is re-addressed to all sub-circuits under "
+                                     f"{'its own key' if role == 'outputs' else 'its own array'}", {"path": norm(path)}, label=f"{role}: all/ prefix")
             else:
-                ctx.violation(rid, gs, st, f"{role} are not re-addressed as `all/<path>` of the same entry: {why}: only some grid rows would be "
-                                           f"{'recorded' if role == 'outputs' else 'driven'} or the entry would be mixed up", label=f"{role}: all/ prefix")
+                ctx.violation(rid, gs, stn, f"{role} are not re-addressed as `all/<path>` of the same entry: {why}: only some grid rows would be "
+                                            f"{'recorded' if role == 'outputs' else 'driven'} or the entry would be mixed up", label=f"{role}: all/ prefix")
     for p in ("simulation_time", "step_size", "sampling_step_size"):
-        if p in kw and _unmodified_param(ctx, gs, kw[p], p):
+        if p in kw and is_param(ctx, gs, kw[p], p):
             ctx.ok(rid, gs, run, f"run() receives the caller's {p} unchanged", label=f"run argument {p}", nontrivial=False)
         else:
             ctx.violation(rid, gs, run, f"run() does not receive the caller's `{p}` unchanged (`{norm(kw[p]) if p in kw else 'missing'}`): the sweep "
                                         f"would be integrated differently from an individual run", label=f"run argument {p}")
     rets = [n for n in walk_shallow(gs.node) if isinstance(n, ast.Return)]
-    run_st = stmt_of(ctx.cfg(gs), run)
+    run_st = stmt_of(cfg, run)
     good = len(rets) == 1 and isinstance(rets[0].value, ast.Tuple) and rets[0].value.elts and isinstance(rets[0].value.elts[0], ast.Name) \
-        and isinstance(run_st, ast.Assign) and run_st.value is run and [d for d in rd.defs_reaching(rets[0].value.elts[0])] == [run_st]
+        and isinstance(run_st, ast.Assign) and run_st.value is run and [d for d, _, _ in terminal_defs(ctx, gs, rets[0].value.elts[0])] == [run_st]
     if good:
         ctx.ok(rid, gs, rets[0], "the DataFrame returned by run() is returned unchanged", label="returned results", nontrivial=False)
     else:
@@ -603,16 +1861,42 @@ def r4_all_prefix_and_run(ctx, rid):
 # R5 — linearize_grid keeps values and keys together
 # --------------------------------------------------------------------------------------------
 
+def _projection(ctx, F, e, p_grid):
+    """'keys' / 'values' when `e` is the list of keys / values of the unmodified grid in the grid's own order, else None."""
+    e = resolve(ctx, F, e)
+    e, _ = _strip_snapshot(e)
+    e = resolve(ctx, F, e)
+    if isinstance(e, ast.Name) and is_param(ctx, F, e, p_grid):
+        return "keys"
+    if isinstance(e, ast.Call) and isinstance(e.func, ast.Attribute) and e.func.attr in ("keys", "values") and not e.args \
+            and isinstance(e.func.value, ast.Name) and is_param(ctx, F, e.func.value, p_grid):
+        return e.func.attr
+    if isinstance(e, ast.ListComp) and len(e.generators) == 1 and not e.generators[0].ifs:
+        x = e.elt
+        if isinstance(x, ast.Name):
+            el = elem_of(ctx, F, x)
+            if el is not None and not el.path and isinstance(el.container, ast.Name) and is_param(ctx, F, el.container, p_grid):
+                return {"key": "keys", "elem": "keys", "value": "values"}.get(el.kind)
+        if isinstance(x, ast.Subscript) and isinstance(x.value, ast.Name) and is_param(ctx, F, x.value, p_grid) and isinstance(x.slice, ast.Name):
+            el = elem_of(ctx, F, x.slice)
+            if el is not None and not el.path and el.kind in ("key", "elem") and isinstance(el.container, ast.Name) \
+                    and is_param(ctx, F, el.container, p_grid):
+                return "values"
+    return None
+
+
 def r5_linearize_grid(ctx, rid):
     lg = _func(ctx, "linearize_grid")
     gs = _func(ctx, "grid_search")
-    p_grid = lg.params[0]
+    lgo = lg.orig
+    p_grid = lgo.params[0]
+    cfg = ctx.cfg(lg)
     frames = _calls(lg, "DataFrame")
     ctx.require(len(frames) == 2, f"{rid}: expected two DataFrame(...) returns in linearize_grid, found {len(frames)}")
     plain = [c for c in frames if len(c.args) == 1 and not c.keywords]
     perm = [c for c in frames if c not in plain]
     ctx.require(len(plain) == 1 and len(perm) == 1, f"{rid}: unrecognised forms of the DataFrame calls in linearize_grid")
-    if _unmodified_param(ctx, lg, plain[0].args[0], p_grid):
+    if is_param(ctx, lg, plain[0].args[0], p_grid):
         ctx.ok(rid, lg, plain[0], "equal-length grids become a DataFrame of the grid itself (row i = i-th value of every key)",
                label="pairwise grid", nontrivial=False)
     else:
@@ -621,39 +1905,57 @@ def r5_linearize_grid(ctx, rid):
     kw = {k.arg: k.value for k in pc.keywords}
     data = pc.args[0] if pc.args else kw.get("data")
     cols = kw.get("columns") or (pc.args[2] if len(pc.args) > 2 else None)
-    ctx.require(data is not None and isinstance(cols, ast.Name), f"{rid}: `{norm(pc)}` lacks data or columns=<name> (unrecognised form)")
-    # lock-step appends
-    def appends(nm):
-        return [c for c in _calls(lg, "append") if isinstance(c.func.value, ast.Name) and c.func.value.id == nm and len(c.args) == 1]
-    kapps = appends(cols.id)
-    ctx.require(len(kapps) == 1, f"{rid}: expected one append to `{cols.id}` in linearize_grid")
-    kb = binding_loop(ctx, lg, kapps[0].args[0]) if isinstance(kapps[0].args[0], ast.Name) else None
-    ctx.require(kb is not None and isinstance(kb[1], ast.Call) and call_name(kb[1]) == "items"
-                and _unmodified_param(ctx, lg, kb[1].func.value, p_grid) and position_in_target(kb[0], kapps[0].args[0].id) == 0,
-                f"{rid}: the column keys are not the keys of `for key, val in {p_grid}.items()` (unrecognised form)")
-    # the values list: the name behind meshgrid(*...)
-    d = resolve_local(ctx, lg, data)
+    ctx.require(data is not None and cols is not None, f"{rid}: `{norm(pc)}` lacks data or columns (unrecognised form)")
+    # the values list: what is behind meshgrid(*...)
+    d = resolve(ctx, lg, data)
     form = None
-    if isinstance(d, ast.Call) and call_name(d) == "reshape" and isinstance(d.func, ast.Attribute) and isinstance(d.func.value, ast.Call) \
-            and call_name(d.func.value) == "stack":
-        stack = d.func.value
-        mg = stack.args[0] if stack.args else None
-        if isinstance(mg, ast.Call) and call_name(mg) == "meshgrid" and len(mg.args) == 1 and isinstance(mg.args[0], ast.Starred):
-            inner = mg.args[0].value
-            if isinstance(inner, ast.Call) and call_name(inner) in ("tuple", "list") and len(inner.args) == 1:
-                inner = inner.args[0]
-            if isinstance(inner, ast.Name):
-                form = (stack, mg, inner, d)
+    if isinstance(d, ast.Call) and call_name(d) == "reshape" and isinstance(d.func, ast.Attribute):
+        stack = resolve(ctx, lg, d.func.value)
+        if isinstance(stack, ast.Call) and call_name(stack) == "stack":
+            mg = resolve(ctx, lg, stack.args[0]) if stack.args else None
+            if isinstance(mg, ast.Call) and call_name(mg) == "meshgrid" and len(mg.args) == 1 and isinstance(mg.args[0], ast.Starred):
+                form = (stack, mg, mg.args[0].value, d)
     if form is None:
         raise AnalysisError(f"{rid}: the permuted grid `{norm(d)}` is not np.stack(np.meshgrid(*values), axis).reshape(-1, n) (unrecognised form)")
     stack, mg, vals, resh = form
-    vapps = appends(vals.id)
-    ctx.require(len(vapps) == 1, f"{rid}: expected one append to `{vals.id}` in linearize_grid")
-    vb = binding_loop(ctx, lg, vapps[0].args[0]) if isinstance(vapps[0].args[0], ast.Name) else None
-    cfg = ctx.cfg(lg)
-    ks, vs = stmt_of(cfg, kapps[0]), stmt_of(cfg, vapps[0])
-    if vb is not None and vb[2] is kb[2] and position_in_target(vb[0], vapps[0].args[0].id) == 1 and block_of(ks) is block_of(vs) \
-            and block_of(ks) is kb[2].body:
+    vals, _ = _strip_snapshot(vals)
+
+    def lockstep_loop():
+        """values and keys appended from the same `for key, val in grid.items()` entry, same iteration: ok / violation / None (other form)"""
+        if not (isinstance(cols, ast.Name) and isinstance(vals, ast.Name)):
+            return None
+        kapps, vapps = _appends_to(ctx, lg, cols), _appends_to(ctx, lg, vals)
+        if not kapps and not vapps:
+            return None
+        ctx.require(len(kapps) == 1, f"{rid}: expected one append to `{cols.id}` in linearize_grid")
+        ctx.require(len(vapps) == 1, f"{rid}: expected one append to `{vals.id}` in linearize_grid")
+        for nm in (cols, vals):
+            fresh = [v for _, v, _ in terminal_defs(ctx, lg, nm)]
+            ctx.require(len(fresh) == 1 and fresh[0] is not None and _is_empty_literal(fresh[0]), f"{rid}: `{nm.id}` does not start as an empty list (unrecognised form)")
+        ke = elem_of(ctx, lg, kapps[0][1]) if isinstance(kapps[0][1], ast.Name) else None
+        ctx.require(ke is not None and ke.kind == "key" and not ke.path and isinstance(ke.container, ast.Name) and is_param(ctx, lg, ke.container, p_grid),
+                    f"{rid}: the column keys are not the keys of `for key, val in {p_grid}.items()` (unrecognised form)")
+        ve = elem_of(ctx, lg, vapps[0][1]) if isinstance(vapps[0][1], ast.Name) else None
+        ks, vs = stmt_of(cfg, kapps[0][0]), stmt_of(cfg, vapps[0][0])
+        body = ke.binder.body if isinstance(ke.binder, ast.For) else None
+        good = ve is not None and ve.binder is ke.binder and ve.kind == "value" and not ve.path and body is not None \
+            and block_of(ks) is block_of(vs) and block_of(ks) is body
+        return good, vs
+    res = lockstep_loop()
+    if res is None:
+        pk, pv = _projection(ctx, lg, cols, p_grid), _projection(ctx, lg, vals, p_grid)
+        if pk is None or pv is None:
+            raise AnalysisError(f"{rid}: cannot tell how the columns `{norm(cols)}` and the value lists `{norm(vals)}` are taken from the grid "
+                                f"(unrecognised form)")
+        vs = stmt_of(cfg, resolve(ctx, lg, vals)) or stmt_of(cfg, mg)
+        # no store into the grid between the two projections: the grid is a parameter that is never re-bound (is_param) - element
+        # stores would have to be written `grid[...] = ...`
+        mutated = [st for st in walk_shallow(lg.node) if isinstance(st, (ast.Assign, ast.AugAssign, ast.Delete))
+                   and any(isinstance(t, ast.Subscript) and isinstance(t.value, ast.Name) and t.value.id == p_grid
+                           for t in (st.targets if not isinstance(st, ast.AugAssign) else [st.target]))]
+        res = (pk == "keys" and pv == "values" and not mutated), vs
+    good, vs = res
+    if good:
         ctx.ok(rid, lg, vs, "value list j and key j come from the same grid entry (appended in lock-step)", label="values/keys lock-step")
     else:
         ctx.violation(rid, lg, vs, "the value lists and the column keys are not appended from the same grid entry in the same iteration: a "
@@ -663,9 +1965,15 @@ def r5_linearize_grid(ctx, rid):
     n_expr = resh.args[1] if len(resh.args) == 2 else (resh.args[0].elts[1] if len(resh.args) == 1 and isinstance(resh.args[0], ast.Tuple)
                                                         and len(resh.args[0].elts) == 2 else None)
     first = resh.args[0] if len(resh.args) == 2 else (resh.args[0].elts[0] if n_expr is not None else None)
-    axis_ok = axis is not None and ast.unparse(axis) == "-1"
-    n_ok = n_expr is not None and ast.unparse(n_expr) in (f"len({p_grid})", f"len({cols.id})", f"len({vals.id})") and first is not None \
-        and ast.unparse(first) == "-1"
+    axis_ok = axis is not None and ast.unparse(expand(ctx, lg, axis)) == "-1"
+    n_ok = False
+    if n_expr is not None and first is not None and ast.unparse(first) == "-1":
+        ne = expand(ctx, lg, n_expr)
+        if isinstance(ne, ast.Call) and isinstance(ne.func, ast.Name) and ne.func.id == "len" and len(ne.args) == 1:
+            a = n_expr.args[0] if isinstance(n_expr, ast.Call) and isinstance(n_expr.func, ast.Name) and n_expr.func.id == "len" and len(n_expr.args) == 1 else ne.args[0]
+            n_ok = (isinstance(a, ast.Name) and is_param(ctx, lg, a, p_grid)) or _projection(ctx, lg, a, p_grid) is not None \
+                or (isinstance(a, ast.Name) and isinstance(cols, ast.Name) and same_origin(ctx, lg, a, cols)) \
+                or (isinstance(a, ast.Name) and isinstance(vals, ast.Name) and same_origin(ctx, lg, a, vals))
     if axis_ok and n_ok:
         ctx.ok(rid, lg, stmt_of(cfg, resh), "the mesh is stacked along the last axis and flattened to rows of n values: column j holds values of key j",
                {"grid": norm(resh)}, label="permuted grid layout")
@@ -673,14 +1981,16 @@ def r5_linearize_grid(ctx, rid):
         ctx.violation(rid, lg, stmt_of(cfg, resh), f"the permuted grid `{norm(resh)}` is not stack(meshgrid(*values), -1).reshape(-1, n) "
                                                    f"(axis is -1: {axis_ok}; reshape to (-1, n): {n_ok}): the rows would not be parameter combinations with "
                                                    f"column j belonging to key j", label="permuted grid layout")
-    # grid_search linearises the caller's grid with the caller's flag
+    # grid_search linearises the caller's grid with the caller's flag and sweeps the result
     lcs = _calls(gs, "linearize_grid")
     ctx.require(len(lcs) == 1, f"{rid}: expected one linearize_grid call in grid_search")
-    b = dict(zip(lg.params, lcs[0].args))
-    b.update({k.arg: k.value for k in lcs[0].keywords})
+    b = _bind_call(lgo, lcs[0])
     st = stmt_of(ctx.cfg(gs), lcs[0])
-    good = _unmodified_param(ctx, gs, b.get(lg.params[0]), "param_grid") and _unmodified_param(ctx, gs, b.get(lg.params[1]), "permute_grid") \
-        and isinstance(st, ast.Assign) and isinstance(st.targets[0], ast.Name) and st.targets[0].id == "param_grid"
+    loop, _ = _row_loop(ctx, gs, rid)
+    table = _row_table(ctx, gs, loop, rid)
+    # (a loop that counts positions instead of iterating `<table>.index` is R3's business: only the call itself is judged here)
+    good = is_param(ctx, gs, b.get(lgo.params[0]), "param_grid") and is_param(ctx, gs, b.get(lgo.params[1]), "permute_grid") \
+        and isinstance(st, ast.Assign) and st.value is lcs[0] and (table is None or any(d is st for d, _, _ in terminal_defs(ctx, gs, table)))
     if good:
         ctx.ok(rid, gs, st, "grid_search linearises the caller's grid with the caller's permute flag", label="grid_search linearises", nontrivial=False)
     else:
